@@ -15,6 +15,10 @@ let option_map f = function
 | Some a -> Some (f a)
 | None -> None
 
+type ('a, 'b) sum =
+| Inl of 'a
+| Inr of 'b
+
 (** val fst : ('a1 * 'a2) -> 'a1 **)
 
 let fst = function
@@ -119,6 +123,19 @@ let rec map f = function
 | [] -> []
 | a :: t -> (f a) :: (map f t)
 
+(** val flat_map : ('a1 -> 'a2 list) -> 'a1 list -> 'a2 list **)
+
+let rec flat_map f = function
+| [] -> []
+| x :: t -> app (f x) (flat_map f t)
+
+(** val fold_left : ('a1 -> 'a2 -> 'a1) -> 'a2 list -> 'a1 -> 'a1 **)
+
+let rec fold_left f l a0 =
+  match l with
+  | [] -> a0
+  | b :: t -> fold_left f t (f a0 b)
+
 (** val fold_right : ('a2 -> 'a1 -> 'a1) -> 'a1 -> 'a2 list -> 'a1 **)
 
 let rec fold_right f a0 = function
@@ -142,6 +159,12 @@ let rec forallb f = function
 let rec filter f = function
 | [] -> []
 | x :: l0 -> if f x then x :: (filter f l0) else filter f l0
+
+(** val find : ('a1 -> bool) -> 'a1 list -> 'a1 option **)
+
+let rec find f = function
+| [] -> None
+| x :: tl0 -> if f x then Some x else find f tl0
 
 (** val combine : 'a1 list -> 'a2 list -> ('a1 * 'a2) list **)
 
@@ -192,6 +215,14 @@ type z =
 | Zneg of positive
 
 module Pos =
+ struct
+  type mask =
+  | IsNul
+  | IsPos of positive
+  | IsNeg
+ end
+
+module Coq_Pos =
  struct
   (** val succ : positive -> positive **)
 
@@ -245,6 +276,65 @@ module Pos =
   | XI p -> XI (XO p)
   | XO p -> XI (pred_double p)
   | XH -> XH
+
+  type mask = Pos.mask =
+  | IsNul
+  | IsPos of positive
+  | IsNeg
+
+  (** val succ_double_mask : mask -> mask **)
+
+  let succ_double_mask = function
+  | IsNul -> IsPos XH
+  | IsPos p -> IsPos (XI p)
+  | IsNeg -> IsNeg
+
+  (** val double_mask : mask -> mask **)
+
+  let double_mask = function
+  | IsPos p -> IsPos (XO p)
+  | x0 -> x0
+
+  (** val double_pred_mask : positive -> mask **)
+
+  let double_pred_mask = function
+  | XI p -> IsPos (XO (XO p))
+  | XO p -> IsPos (XO (pred_double p))
+  | XH -> IsNul
+
+  (** val sub_mask : positive -> positive -> mask **)
+
+  let rec sub_mask x y =
+    match x with
+    | XI p ->
+      (match y with
+       | XI q -> double_mask (sub_mask p q)
+       | XO q -> succ_double_mask (sub_mask p q)
+       | XH -> IsPos (XO p))
+    | XO p ->
+      (match y with
+       | XI q -> succ_double_mask (sub_mask_carry p q)
+       | XO q -> double_mask (sub_mask p q)
+       | XH -> IsPos (pred_double p))
+    | XH -> (match y with
+             | XH -> IsNul
+             | _ -> IsNeg)
+
+  (** val sub_mask_carry : positive -> positive -> mask **)
+
+  and sub_mask_carry x y =
+    match x with
+    | XI p ->
+      (match y with
+       | XI q -> succ_double_mask (sub_mask_carry p q)
+       | XO q -> double_mask (sub_mask p q)
+       | XH -> IsPos (pred_double p))
+    | XO p ->
+      (match y with
+       | XI q -> double_mask (sub_mask_carry p q)
+       | XO q -> succ_double_mask (sub_mask_carry p q)
+       | XH -> double_pred_mask p)
+    | XH -> IsNeg
 
   (** val mul : positive -> positive -> positive **)
 
@@ -320,7 +410,20 @@ module N =
     | N0 -> m
     | Npos p -> (match m with
                  | N0 -> n0
-                 | Npos q -> Npos (Pos.add p q))
+                 | Npos q -> Npos (Coq_Pos.add p q))
+
+  (** val sub : n -> n -> n **)
+
+  let sub n0 m =
+    match n0 with
+    | N0 -> N0
+    | Npos n' ->
+      (match m with
+       | N0 -> n0
+       | Npos m' ->
+         (match Coq_Pos.sub_mask n' m' with
+          | Coq_Pos.IsPos p -> Npos p
+          | _ -> N0))
 
   (** val mul : n -> n -> n **)
 
@@ -329,7 +432,7 @@ module N =
     | N0 -> N0
     | Npos p -> (match m with
                  | N0 -> N0
-                 | Npos q -> Npos (Pos.mul p q))
+                 | Npos q -> Npos (Coq_Pos.mul p q))
 
   (** val compare : n -> n -> comparison **)
 
@@ -340,7 +443,7 @@ module N =
              | Npos _ -> Lt)
     | Npos n' -> (match m with
                   | N0 -> Gt
-                  | Npos m' -> Pos.compare n' m')
+                  | Npos m' -> Coq_Pos.compare n' m')
 
   (** val eqb : n -> n -> bool **)
 
@@ -351,7 +454,7 @@ module N =
              | Npos _ -> false)
     | Npos p -> (match m with
                  | N0 -> false
-                 | Npos q -> Pos.eqb p q)
+                 | Npos q -> Coq_Pos.eqb p q)
 
   (** val leb : n -> n -> bool **)
 
@@ -371,13 +474,13 @@ module N =
 
   let to_nat = function
   | N0 -> O
-  | Npos p -> Pos.to_nat p
+  | Npos p -> Coq_Pos.to_nat p
 
   (** val of_nat : nat -> n **)
 
   let of_nat = function
   | O -> N0
-  | S n' -> Npos (Pos.of_succ_nat n')
+  | S n' -> Npos (Coq_Pos.of_succ_nat n')
  end
 
 type ascii =
@@ -411,13 +514,13 @@ module Z =
   let succ_double = function
   | Z0 -> Zpos XH
   | Zpos p -> Zpos (XI p)
-  | Zneg p -> Zneg (Pos.pred_double p)
+  | Zneg p -> Zneg (Coq_Pos.pred_double p)
 
   (** val pred_double : z -> z **)
 
   let pred_double = function
   | Z0 -> Zneg XH
-  | Zpos p -> Zpos (Pos.pred_double p)
+  | Zpos p -> Zpos (Coq_Pos.pred_double p)
   | Zneg p -> Zneg (XI p)
 
   (** val pos_sub : positive -> positive -> z **)
@@ -433,11 +536,11 @@ module Z =
       (match y with
        | XI q -> pred_double (pos_sub p q)
        | XO q -> double (pos_sub p q)
-       | XH -> Zpos (Pos.pred_double p))
+       | XH -> Zpos (Coq_Pos.pred_double p))
     | XH ->
       (match y with
        | XI q -> Zneg (XO q)
-       | XO q -> Zneg (Pos.pred_double q)
+       | XO q -> Zneg (Coq_Pos.pred_double q)
        | XH -> Z0)
 
   (** val add : z -> z -> z **)
@@ -448,13 +551,13 @@ module Z =
     | Zpos x' ->
       (match y with
        | Z0 -> x
-       | Zpos y' -> Zpos (Pos.add x' y')
+       | Zpos y' -> Zpos (Coq_Pos.add x' y')
        | Zneg y' -> pos_sub x' y')
     | Zneg x' ->
       (match y with
        | Z0 -> x
        | Zpos y' -> pos_sub y' x'
-       | Zneg y' -> Zneg (Pos.add x' y'))
+       | Zneg y' -> Zneg (Coq_Pos.add x' y'))
 
   (** val opp : z -> z **)
 
@@ -477,12 +580,19 @@ module Z =
              | Zpos _ -> Lt
              | Zneg _ -> Gt)
     | Zpos x' -> (match y with
-                  | Zpos y' -> Pos.compare x' y'
+                  | Zpos y' -> Coq_Pos.compare x' y'
                   | _ -> Gt)
     | Zneg x' ->
       (match y with
-       | Zneg y' -> compOpp (Pos.compare x' y')
+       | Zneg y' -> compOpp (Coq_Pos.compare x' y')
        | _ -> Lt)
+
+  (** val leb : z -> z -> bool **)
+
+  let leb x y =
+    match compare x y with
+    | Gt -> false
+    | _ -> true
 
   (** val ltb : z -> z -> bool **)
 
@@ -499,23 +609,23 @@ module Z =
              | Z0 -> true
              | _ -> false)
     | Zpos p -> (match y with
-                 | Zpos q -> Pos.eqb p q
+                 | Zpos q -> Coq_Pos.eqb p q
                  | _ -> false)
     | Zneg p -> (match y with
-                 | Zneg q -> Pos.eqb p q
+                 | Zneg q -> Coq_Pos.eqb p q
                  | _ -> false)
 
   (** val to_nat : z -> nat **)
 
   let to_nat = function
-  | Zpos p -> Pos.to_nat p
+  | Zpos p -> Coq_Pos.to_nat p
   | _ -> O
 
   (** val of_nat : nat -> z **)
 
   let of_nat = function
   | O -> Z0
-  | S n1 -> Zpos (Pos.of_succ_nat n1)
+  | S n1 -> Zpos (Coq_Pos.of_succ_nat n1)
  end
 
 type string =
@@ -635,6 +745,18 @@ let rec is_prefix p s =
     (match s with
      | [] -> false
      | y :: s' -> (&&) (N.eqb x y) (is_prefix p' s'))
+
+(** val contains : bytes -> bytes -> bool **)
+
+let rec contains w s =
+  (||) (is_prefix w s) (match s with
+                        | [] -> false
+                        | _ :: s' -> contains w s')
+
+(** val is_suffix : bytes -> bytes -> bool **)
+
+let is_suffix w s =
+  is_prefix (rev w) (rev s)
 
 (** val is_digit : n -> bool **)
 
@@ -997,10 +1119,125 @@ let ev_ToLexemeType = function
 | ContextClose -> Some LContextClose
 | _ -> Some LEnum
 
+(** val dir_Jsight : n **)
+
+let dir_Jsight =
+  N0
+
+(** val dir_Title : n **)
+
+let dir_Title =
+  Npos (XO XH)
+
+(** val dir_Version : n **)
+
+let dir_Version =
+  Npos (XI XH)
+
+(** val dir_Server : n **)
+
+let dir_Server =
+  Npos (XI (XO XH))
+
+(** val dir_BaseURL : n **)
+
+let dir_BaseURL =
+  Npos (XO (XI XH))
+
+(** val dir_URL : n **)
+
+let dir_URL =
+  Npos (XI (XI XH))
+
+(** val dir_Get : n **)
+
+let dir_Get =
+  Npos (XO (XO (XO XH)))
+
+(** val dir_Post : n **)
+
+let dir_Post =
+  Npos (XI (XO (XO XH)))
+
+(** val dir_Put : n **)
+
+let dir_Put =
+  Npos (XO (XI (XO XH)))
+
+(** val dir_Patch : n **)
+
+let dir_Patch =
+  Npos (XI (XI (XO XH)))
+
+(** val dir_Delete : n **)
+
+let dir_Delete =
+  Npos (XO (XO (XI XH)))
+
+(** val dir_Body : n **)
+
+let dir_Body =
+  Npos (XI (XO (XI XH)))
+
+(** val dir_Request : n **)
+
+let dir_Request =
+  Npos (XO (XI (XI XH)))
+
 (** val dir_HTTPResponseCode : n **)
 
 let dir_HTTPResponseCode =
   Npos (XI (XI (XI XH)))
+
+(** val dir_Query : n **)
+
+let dir_Query =
+  Npos (XO (XI (XO (XO XH))))
+
+(** val dir_Type : n **)
+
+let dir_Type =
+  Npos (XI (XI (XO (XO XH))))
+
+(** val dir_Enum : n **)
+
+let dir_Enum =
+  Npos (XO (XO (XI (XO XH))))
+
+(** val dir_Macro : n **)
+
+let dir_Macro =
+  Npos (XI (XO (XI (XO XH))))
+
+(** val dir_Paste : n **)
+
+let dir_Paste =
+  Npos (XO (XI (XI (XO XH))))
+
+(** val dir_Protocol : n **)
+
+let dir_Protocol =
+  Npos (XO (XO (XO (XI XH))))
+
+(** val dir_Method : n **)
+
+let dir_Method =
+  Npos (XI (XO (XO (XI XH))))
+
+(** val dir_TAG : n **)
+
+let dir_TAG =
+  Npos (XO (XO (XI (XI XH))))
+
+(** val dir_Tags : n **)
+
+let dir_Tags =
+  Npos (XI (XO (XI (XI XH))))
+
+(** val dir_OperationID : n **)
+
+let dir_OperationID =
+  Npos (XO (XI (XI (XI XH))))
 
 (** val dir_keywords : string list **)
 
@@ -1206,6 +1443,74 @@ let dir_keywords =
     false, true, false, false, true, false)), (String ((Ascii (false, false,
     true, false, false, true, true, false)),
     EmptyString)))))))))))))))))))))) :: []))))))))))))))))))))))))))))))
+
+(** val dir_root_allowed : n list **)
+
+let dir_root_allowed =
+  N0 :: ((Npos XH) :: ((Npos (XI (XO XH))) :: ((Npos (XI (XI XH))) :: ((Npos
+    (XO (XO (XO XH)))) :: ((Npos (XI (XO (XO XH)))) :: ((Npos (XO (XI (XO
+    XH)))) :: ((Npos (XI (XI (XO XH)))) :: ((Npos (XO (XO (XI
+    XH)))) :: ((Npos (XI (XI (XO (XO XH))))) :: ((Npos (XO (XO (XI (XO
+    XH))))) :: ((Npos (XI (XO (XI (XO XH))))) :: ((Npos (XO (XI (XI (XO
+    XH))))) :: ((Npos (XO (XO (XI (XI XH))))) :: [])))))))))))))
+
+(** val dir_http_methods : n list **)
+
+let dir_http_methods =
+  (Npos (XO (XO (XO XH)))) :: ((Npos (XI (XO (XO XH)))) :: ((Npos (XO (XI (XO
+    XH)))) :: ((Npos (XI (XI (XO XH)))) :: ((Npos (XO (XO (XI XH)))) :: []))))
+
+(** val dir_context_table : (n * n list) list **)
+
+let dir_context_table =
+  ((Npos (XI (XI XH))), ((Npos (XO (XO (XO XH)))) :: ((Npos (XI (XO (XO
+    XH)))) :: ((Npos (XO (XI (XO XH)))) :: ((Npos (XI (XI (XO
+    XH)))) :: ((Npos (XO (XO (XI XH)))) :: ((Npos (XO (XO (XO (XO
+    XH))))) :: ((Npos (XO (XI (XI (XO XH))))) :: ((Npos (XO (XO (XO (XI
+    XH))))) :: ((Npos (XI (XO (XO (XI XH))))) :: ((Npos (XI (XO (XI (XI
+    XH))))) :: []))))))))))) :: (((Npos (XO (XO (XO XH)))), ((Npos (XO (XO
+    XH))) :: ((Npos (XO (XI (XI XH)))) :: ((Npos (XI (XI (XI XH)))) :: ((Npos
+    (XO (XO (XO (XO XH))))) :: ((Npos (XO (XI (XO (XO XH))))) :: ((Npos (XO
+    (XI (XI (XO XH))))) :: ((Npos (XI (XO (XI (XI XH))))) :: ((Npos (XO (XI
+    (XI (XI XH))))) :: []))))))))) :: (((Npos (XI (XO (XO XH)))), ((Npos (XO
+    (XO XH))) :: ((Npos (XO (XI (XI XH)))) :: ((Npos (XI (XI (XI
+    XH)))) :: ((Npos (XO (XO (XO (XO XH))))) :: ((Npos (XO (XI (XO (XO
+    XH))))) :: ((Npos (XO (XI (XI (XO XH))))) :: ((Npos (XI (XO (XI (XI
+    XH))))) :: ((Npos (XO (XI (XI (XI XH))))) :: []))))))))) :: (((Npos (XO
+    (XI (XO XH)))), ((Npos (XO (XO XH))) :: ((Npos (XO (XI (XI
+    XH)))) :: ((Npos (XI (XI (XI XH)))) :: ((Npos (XO (XO (XO (XO
+    XH))))) :: ((Npos (XO (XI (XO (XO XH))))) :: ((Npos (XO (XI (XI (XO
+    XH))))) :: ((Npos (XI (XO (XI (XI XH))))) :: ((Npos (XO (XI (XI (XI
+    XH))))) :: []))))))))) :: (((Npos (XI (XI (XO XH)))), ((Npos (XO (XO
+    XH))) :: ((Npos (XO (XI (XI XH)))) :: ((Npos (XI (XI (XI XH)))) :: ((Npos
+    (XO (XO (XO (XO XH))))) :: ((Npos (XO (XI (XO (XO XH))))) :: ((Npos (XO
+    (XI (XI (XO XH))))) :: ((Npos (XI (XO (XI (XI XH))))) :: ((Npos (XO (XI
+    (XI (XI XH))))) :: []))))))))) :: (((Npos (XO (XO (XI XH)))), ((Npos (XO
+    (XO XH))) :: ((Npos (XO (XI (XI XH)))) :: ((Npos (XI (XI (XI
+    XH)))) :: ((Npos (XO (XO (XO (XO XH))))) :: ((Npos (XO (XI (XO (XO
+    XH))))) :: ((Npos (XO (XI (XI (XO XH))))) :: ((Npos (XI (XO (XI (XI
+    XH))))) :: ((Npos (XO (XI (XI (XI XH))))) :: []))))))))) :: (((Npos (XI
+    (XI (XI XH)))), ((Npos (XI (XO (XI XH)))) :: ((Npos (XI (XO (XO (XO
+    XH))))) :: ((Npos (XO (XI (XI (XO XH))))) :: [])))) :: (((Npos (XO (XI
+    (XI XH)))), ((Npos (XI (XO (XI XH)))) :: ((Npos (XI (XO (XO (XO
+    XH))))) :: ((Npos (XO (XI (XI (XO XH))))) :: [])))) :: (((Npos XH),
+    ((Npos (XO XH)) :: ((Npos (XI XH)) :: ((Npos (XO (XO XH))) :: ((Npos (XO
+    (XI (XI (XO XH))))) :: []))))) :: (((Npos (XI (XO XH))), ((Npos (XO (XI
+    XH))) :: ((Npos (XO (XI (XI (XO XH))))) :: []))) :: (((Npos (XI (XO (XO
+    (XI XH))))), ((Npos (XO (XO XH))) :: ((Npos (XO (XI (XO (XI
+    XH))))) :: ((Npos (XI (XI (XO (XI XH))))) :: ((Npos (XI (XO (XI (XI
+    XH))))) :: []))))) :: (((Npos (XO (XO (XI (XI XH))))), ((Npos (XO (XO
+    XH))) :: [])) :: (((Npos (XI (XO (XI (XO XH))))), ((Npos XH) :: ((Npos
+    (XO XH)) :: ((Npos (XI XH)) :: ((Npos (XO (XO XH))) :: ((Npos (XI (XO
+    XH))) :: ((Npos (XO (XI XH))) :: ((Npos (XI (XI XH))) :: ((Npos (XO (XO
+    (XO XH)))) :: ((Npos (XI (XO (XO XH)))) :: ((Npos (XO (XI (XO
+    XH)))) :: ((Npos (XI (XI (XO XH)))) :: ((Npos (XO (XO (XI
+    XH)))) :: ((Npos (XI (XO (XI XH)))) :: ((Npos (XO (XI (XI
+    XH)))) :: ((Npos (XI (XI (XI XH)))) :: ((Npos (XO (XO (XO (XO
+    XH))))) :: ((Npos (XI (XO (XO (XO XH))))) :: ((Npos (XO (XI (XO (XO
+    XH))))) :: ((Npos (XI (XI (XO (XO XH))))) :: ((Npos (XO (XO (XI (XO
+    XH))))) :: ((Npos (XO (XI (XI (XO
+    XH))))) :: [])))))))))))))))))))))) :: []))))))))))))
 
 type lexeme = { lk : lexkind; lb : z; le : z }
 
@@ -8592,7 +8897,7 @@ let prog_table =
         (String ((Ascii (true, true, false, false, true, true, true, false)),
         EmptyString)))) :: [])), SSkip)) :: ((SFound (KeywordEnd,
       Z0)) :: ((SPush st_stateExpectKeyword) :: ((SSetStep
-      st_stateParameterOrAnnotation) :: (SRetNil :: []))))))) :: (((String
+      st_stateParameterOrAnnotationAfterFirstSpace) :: (SRetNil :: []))))))) :: (((String
     ((Ascii (true, true, false, false, true, true, true, false)), (String
     ((Ascii (false, false, true, false, true, true, true, false)), (String
     ((Ascii (true, false, false, false, false, true, true, false)), (String
@@ -9149,3 +9454,3025 @@ let state_name st =
   | None ->
     String ((Ascii (true, true, true, true, true, true, false, false)),
       EmptyString)
+
+(** val digits_value : bytes -> n **)
+
+let digits_value ds =
+  fold_left (fun acc d ->
+    N.add (N.mul acc (Npos (XO (XI (XO XH)))))
+      (N.sub d (Npos (XO (XO (XO (XO (XI XH)))))))) ds N0
+
+(** val is_http_response_code : bytes -> bool **)
+
+let is_http_response_code s = match s with
+| [] -> false
+| c0 :: rest ->
+  let digits =
+    if (||) (N.eqb c0 (Npos (XI (XI (XO (XI (XO XH)))))))
+         (N.eqb c0 (Npos (XI (XO (XI (XI (XO XH)))))))
+    then rest
+    else s
+  in
+  (match digits with
+   | [] -> false
+   | _ :: _ ->
+     (&&)
+       ((&&)
+         ((&&)
+           ((&&) (forallb is_digit digits)
+             (negb (N.eqb c0 (Npos (XO (XO (XO (XO (XI XH)))))))))
+           (negb (N.eqb c0 (Npos (XI (XO (XI (XI (XO XH)))))))))
+         (N.leb (Npos (XO (XO (XI (XO (XO (XI XH))))))) (digits_value digits)))
+       (N.leb (digits_value digits) (Npos (XI (XI (XI (XO (XI (XO (XI (XO (XO
+         XH))))))))))))
+
+(** val indexed_keywords : (n * bytes) list **)
+
+let indexed_keywords =
+  combine (map N.of_nat (seq O (length keyword_bytes))) keyword_bytes
+
+(** val new_directive_type : bytes -> n option **)
+
+let new_directive_type w =
+  match find (fun p ->
+          (&&) (negb (N.eqb (fst p) dir_HTTPResponseCode)) (beq w (snd p)))
+          indexed_keywords with
+  | Some p -> let (i, _) = p in Some i
+  | None ->
+    if is_http_response_code w then Some dir_HTTPResponseCode else None
+
+(** val mem_N : n -> n list -> bool **)
+
+let mem_N x l =
+  existsb (N.eqb x) l
+
+(** val is_http_request_method : n -> bool **)
+
+let is_http_request_method k =
+  mem_N k dir_http_methods
+
+(** val is_allowed_for_root : n -> bool **)
+
+let is_allowed_for_root k =
+  mem_N k dir_root_allowed
+
+(** val is_allowed_in : n -> n -> bool **)
+
+let is_allowed_in parent child =
+  match find (fun p -> N.eqb (fst p) parent) dir_context_table with
+  | Some p -> let (_, cs) = p in mem_N child cs
+  | None -> false
+
+type icond =
+| IFirstByte of n
+| IEquals of n list
+| IContains of n list
+| IHasPrefix of n list
+| IHasSuffix of n list
+| ISegmentIn of n list list
+| IOr of icond * icond
+| IAnd of icond * icond
+
+(** val include_checks : (icond * string) list **)
+
+let include_checks =
+  ((IFirstByte (Npos (XI (XI (XI (XI (XO XH))))))), (String ((Ascii (true,
+    true, false, false, false, true, true, false)), (String ((Ascii (true,
+    false, false, false, false, true, true, false)), (String ((Ascii (false,
+    true, true, true, false, true, true, false)), (String ((Ascii (false,
+    true, true, true, false, true, true, false)), (String ((Ascii (true,
+    true, true, true, false, true, true, false)), (String ((Ascii (false,
+    false, true, false, true, true, true, false)), (String ((Ascii (false,
+    false, false, false, false, true, false, false)), (String ((Ascii (false,
+    true, true, true, false, true, true, false)), (String ((Ascii (true,
+    true, true, true, false, true, true, false)), (String ((Ascii (false,
+    false, true, false, true, true, true, false)), (String ((Ascii (false,
+    false, false, false, false, true, false, false)), (String ((Ascii (true,
+    true, false, false, true, true, true, false)), (String ((Ascii (false,
+    false, true, false, true, true, true, false)), (String ((Ascii (true,
+    false, false, false, false, true, true, false)), (String ((Ascii (false,
+    true, false, false, true, true, true, false)), (String ((Ascii (false,
+    false, true, false, true, true, true, false)), (String ((Ascii (false,
+    false, false, false, false, true, false, false)), (String ((Ascii (true,
+    true, true, false, true, true, true, false)), (String ((Ascii (true,
+    false, false, true, false, true, true, false)), (String ((Ascii (false,
+    false, true, false, true, true, true, false)), (String ((Ascii (false,
+    false, false, true, false, true, true, false)), (String ((Ascii (false,
+    false, false, false, false, true, false, false)), (String ((Ascii (false,
+    false, false, false, false, true, true, false)), (String ((Ascii (true,
+    true, true, true, false, true, false, false)), (String ((Ascii (false,
+    false, false, false, false, true, true, false)),
+    EmptyString))))))))))))))))))))))))))))))))))))))))))))))))))) :: (((IOr
+    ((IOr ((IOr ((IOr ((IOr ((IContains ((Npos (XI (XI (XI (XI (XO
+    XH)))))) :: ((Npos (XO (XI (XI (XI (XO XH)))))) :: ((Npos (XI (XI (XI (XI
+    (XO XH)))))) :: [])))), (IContains ((Npos (XO (XI (XI (XI (XO
+    XH)))))) :: ((Npos (XI (XI (XI (XI (XO XH)))))) :: []))))), (IContains
+    ((Npos (XI (XI (XI (XI (XO XH)))))) :: ((Npos (XO (XI (XI (XI (XO
+    XH)))))) :: []))))), (IContains ((Npos (XI (XI (XI (XI (XO
+    XH)))))) :: ((Npos (XO (XI (XI (XI (XO XH)))))) :: ((Npos (XO (XI (XI (XI
+    (XO XH)))))) :: ((Npos (XI (XI (XI (XI (XO XH)))))) :: []))))))),
+    (IContains ((Npos (XO (XI (XI (XI (XO XH)))))) :: ((Npos (XO (XI (XI (XI
+    (XO XH)))))) :: ((Npos (XI (XI (XI (XI (XO XH)))))) :: [])))))),
+    (IContains ((Npos (XI (XI (XI (XI (XO XH)))))) :: ((Npos (XO (XI (XI (XI
+    (XO XH)))))) :: ((Npos (XO (XI (XI (XI (XO XH)))))) :: [])))))), (String
+    ((Ascii (true, true, false, false, false, true, true, false)), (String
+    ((Ascii (true, false, false, false, false, true, true, false)), (String
+    ((Ascii (false, true, true, true, false, true, true, false)), (String
+    ((Ascii (false, true, true, true, false, true, true, false)), (String
+    ((Ascii (true, true, true, true, false, true, true, false)), (String
+    ((Ascii (false, false, true, false, true, true, true, false)), (String
+    ((Ascii (false, false, false, false, false, true, false, false)), (String
+    ((Ascii (true, true, false, false, false, true, true, false)), (String
+    ((Ascii (true, true, true, true, false, true, true, false)), (String
+    ((Ascii (false, true, true, true, false, true, true, false)), (String
+    ((Ascii (false, false, true, false, true, true, true, false)), (String
+    ((Ascii (true, false, false, false, false, true, true, false)), (String
+    ((Ascii (true, false, false, true, false, true, true, false)), (String
+    ((Ascii (false, true, true, true, false, true, true, false)), (String
+    ((Ascii (false, false, false, false, false, true, false, false)), (String
+    ((Ascii (false, false, false, false, false, true, true, false)), (String
+    ((Ascii (false, true, true, true, false, true, false, false)), (String
+    ((Ascii (false, true, true, true, false, true, false, false)), (String
+    ((Ascii (false, false, false, false, false, true, true, false)), (String
+    ((Ascii (false, false, false, false, false, true, false, false)), (String
+    ((Ascii (true, true, true, true, false, true, true, false)), (String
+    ((Ascii (false, true, false, false, true, true, true, false)), (String
+    ((Ascii (false, false, false, false, false, true, false, false)), (String
+    ((Ascii (false, false, false, false, false, true, true, false)), (String
+    ((Ascii (false, true, true, true, false, true, false, false)), (String
+    ((Ascii (false, false, false, false, false, true, true, false)),
+    EmptyString))))))))))))))))))))))))))))))))))))))))))))))))))))) :: (((IContains
+    ((Npos (XO (XO (XI (XI (XI (XO XH))))))) :: [])), (String ((Ascii (false,
+    false, true, false, false, true, true, false)), (String ((Ascii (true,
+    false, false, true, false, true, true, false)), (String ((Ascii (false,
+    true, false, false, true, true, true, false)), (String ((Ascii (true,
+    false, true, false, false, true, true, false)), (String ((Ascii (true,
+    true, false, false, false, true, true, false)), (String ((Ascii (false,
+    false, true, false, true, true, true, false)), (String ((Ascii (true,
+    true, true, true, false, true, true, false)), (String ((Ascii (false,
+    true, false, false, true, true, true, false)), (String ((Ascii (true,
+    false, false, true, false, true, true, false)), (String ((Ascii (true,
+    false, true, false, false, true, true, false)), (String ((Ascii (true,
+    true, false, false, true, true, true, false)), (String ((Ascii (false,
+    false, false, false, false, true, false, false)), (String ((Ascii (true,
+    false, true, true, false, true, true, false)), (String ((Ascii (true,
+    false, true, false, true, true, true, false)), (String ((Ascii (true,
+    true, false, false, true, true, true, false)), (String ((Ascii (false,
+    false, true, false, true, true, true, false)), (String ((Ascii (false,
+    false, false, false, false, true, false, false)), (String ((Ascii (false,
+    true, false, false, false, true, true, false)), (String ((Ascii (true,
+    false, true, false, false, true, true, false)), (String ((Ascii (false,
+    false, false, false, false, true, false, false)), (String ((Ascii (true,
+    true, false, false, true, true, true, false)), (String ((Ascii (true,
+    false, true, false, false, true, true, false)), (String ((Ascii (false,
+    false, false, false, true, true, true, false)), (String ((Ascii (true,
+    false, false, false, false, true, true, false)), (String ((Ascii (false,
+    true, false, false, true, true, true, false)), (String ((Ascii (true,
+    false, false, false, false, true, true, false)), (String ((Ascii (false,
+    false, true, false, true, true, true, false)), (String ((Ascii (true,
+    false, true, false, false, true, true, false)), (String ((Ascii (false,
+    false, true, false, false, true, true, false)), (String ((Ascii (false,
+    false, false, false, false, true, false, false)), (String ((Ascii (false,
+    true, false, false, false, true, true, false)), (String ((Ascii (true,
+    false, false, true, true, true, true, false)), (String ((Ascii (false,
+    false, false, false, false, true, false, false)), (String ((Ascii (true,
+    true, false, false, true, true, true, false)), (String ((Ascii (false,
+    false, true, true, false, true, true, false)), (String ((Ascii (true,
+    false, false, false, false, true, true, false)), (String ((Ascii (true,
+    true, false, false, true, true, true, false)), (String ((Ascii (false,
+    false, false, true, false, true, true, false)), (String ((Ascii (true,
+    false, true, false, false, true, true, false)), (String ((Ascii (true,
+    true, false, false, true, true, true, false)), (String ((Ascii (false,
+    false, false, false, false, true, false, false)), (String ((Ascii (false,
+    false, false, false, false, true, true, false)), (String ((Ascii (true,
+    true, true, true, false, true, false, false)), (String ((Ascii (false,
+    false, false, false, false, true, true, false)),
+    EmptyString))))))))))))))))))))))))))))))))))))))))))))))))))))))))))))))))))))))))))))))))))))))))) :: []))
+
+(** val jerr_AnnotationIsForbiddenForTheDirective : string **)
+
+let jerr_AnnotationIsForbiddenForTheDirective =
+  String ((Ascii (false, false, true, false, true, true, true, false)),
+    (String ((Ascii (false, false, false, true, false, true, true, false)),
+    (String ((Ascii (true, false, true, false, false, true, true, false)),
+    (String ((Ascii (false, false, false, false, false, true, false, false)),
+    (String ((Ascii (true, false, false, false, false, true, true, false)),
+    (String ((Ascii (false, true, true, true, false, true, true, false)),
+    (String ((Ascii (false, true, true, true, false, true, true, false)),
+    (String ((Ascii (true, true, true, true, false, true, true, false)),
+    (String ((Ascii (false, false, true, false, true, true, true, false)),
+    (String ((Ascii (true, false, false, false, false, true, true, false)),
+    (String ((Ascii (false, false, true, false, true, true, true, false)),
+    (String ((Ascii (true, false, false, true, false, true, true, false)),
+    (String ((Ascii (true, true, true, true, false, true, true, false)),
+    (String ((Ascii (false, true, true, true, false, true, true, false)),
+    (String ((Ascii (false, false, false, false, false, true, false, false)),
+    (String ((Ascii (true, false, false, true, false, true, true, false)),
+    (String ((Ascii (true, true, false, false, true, true, true, false)),
+    (String ((Ascii (false, false, false, false, false, true, false, false)),
+    (String ((Ascii (false, true, true, true, false, true, true, false)),
+    (String ((Ascii (true, true, true, true, false, true, true, false)),
+    (String ((Ascii (false, false, true, false, true, true, true, false)),
+    (String ((Ascii (false, false, false, false, false, true, false, false)),
+    (String ((Ascii (true, false, false, false, false, true, true, false)),
+    (String ((Ascii (false, false, true, true, false, true, true, false)),
+    (String ((Ascii (false, false, true, true, false, true, true, false)),
+    (String ((Ascii (true, true, true, true, false, true, true, false)),
+    (String ((Ascii (true, true, true, false, true, true, true, false)),
+    (String ((Ascii (true, false, true, false, false, true, true, false)),
+    (String ((Ascii (false, false, true, false, false, true, true, false)),
+    (String ((Ascii (false, false, false, false, false, true, false, false)),
+    (String ((Ascii (false, true, true, false, false, true, true, false)),
+    (String ((Ascii (true, true, true, true, false, true, true, false)),
+    (String ((Ascii (false, true, false, false, true, true, true, false)),
+    (String ((Ascii (false, false, false, false, false, true, false, false)),
+    (String ((Ascii (false, false, true, false, true, true, true, false)),
+    (String ((Ascii (false, false, false, true, false, true, true, false)),
+    (String ((Ascii (true, false, false, true, false, true, true, false)),
+    (String ((Ascii (true, true, false, false, true, true, true, false)),
+    (String ((Ascii (false, false, false, false, false, true, false, false)),
+    (String ((Ascii (false, false, true, false, false, true, true, false)),
+    (String ((Ascii (true, false, false, true, false, true, true, false)),
+    (String ((Ascii (false, true, false, false, true, true, true, false)),
+    (String ((Ascii (true, false, true, false, false, true, true, false)),
+    (String ((Ascii (true, true, false, false, false, true, true, false)),
+    (String ((Ascii (false, false, true, false, true, true, true, false)),
+    (String ((Ascii (true, false, false, true, false, true, true, false)),
+    (String ((Ascii (false, true, true, false, true, true, true, false)),
+    (String ((Ascii (true, false, true, false, false, true, true, false)),
+    EmptyString)))))))))))))))))))))))))))))))))))))))))))))))))))))))))))))))))))))))))))))))))))))))))))))))
+
+(** val jerr_ContextNotClosed : string **)
+
+let jerr_ContextNotClosed =
+  String ((Ascii (false, false, true, false, true, true, true, false)),
+    (String ((Ascii (false, false, false, true, false, true, true, false)),
+    (String ((Ascii (true, false, false, true, false, true, true, false)),
+    (String ((Ascii (true, true, false, false, true, true, true, false)),
+    (String ((Ascii (false, false, false, false, false, true, false, false)),
+    (String ((Ascii (true, true, true, true, false, true, true, false)),
+    (String ((Ascii (false, false, false, false, true, true, true, false)),
+    (String ((Ascii (true, false, true, false, false, true, true, false)),
+    (String ((Ascii (false, true, true, true, false, true, true, false)),
+    (String ((Ascii (true, false, false, true, false, true, true, false)),
+    (String ((Ascii (false, true, true, true, false, true, true, false)),
+    (String ((Ascii (true, true, true, false, false, true, true, false)),
+    (String ((Ascii (false, false, false, false, false, true, false, false)),
+    (String ((Ascii (false, false, false, false, true, true, true, false)),
+    (String ((Ascii (true, false, false, false, false, true, true, false)),
+    (String ((Ascii (false, true, false, false, true, true, true, false)),
+    (String ((Ascii (true, false, true, false, false, true, true, false)),
+    (String ((Ascii (false, true, true, true, false, true, true, false)),
+    (String ((Ascii (false, false, true, false, true, true, true, false)),
+    (String ((Ascii (false, false, false, true, false, true, true, false)),
+    (String ((Ascii (true, false, true, false, false, true, true, false)),
+    (String ((Ascii (true, true, false, false, true, true, true, false)),
+    (String ((Ascii (true, false, false, true, false, true, true, false)),
+    (String ((Ascii (true, true, false, false, true, true, true, false)),
+    (String ((Ascii (false, false, false, false, false, true, false, false)),
+    (String ((Ascii (true, false, false, true, false, true, true, false)),
+    (String ((Ascii (true, true, false, false, true, true, true, false)),
+    (String ((Ascii (false, false, false, false, false, true, false, false)),
+    (String ((Ascii (false, true, true, true, false, true, true, false)),
+    (String ((Ascii (true, true, true, true, false, true, true, false)),
+    (String ((Ascii (false, false, true, false, true, true, true, false)),
+    (String ((Ascii (false, false, false, false, false, true, false, false)),
+    (String ((Ascii (true, true, false, false, false, true, true, false)),
+    (String ((Ascii (false, false, true, true, false, true, true, false)),
+    (String ((Ascii (true, true, true, true, false, true, true, false)),
+    (String ((Ascii (true, true, false, false, true, true, true, false)),
+    (String ((Ascii (true, false, true, false, false, true, true, false)),
+    (String ((Ascii (false, false, true, false, false, true, true, false)),
+    (String ((Ascii (false, false, true, true, false, true, false, false)),
+    (String ((Ascii (false, false, false, false, false, true, false, false)),
+    (String ((Ascii (false, false, true, true, false, true, true, false)),
+    (String ((Ascii (true, false, true, false, false, true, true, false)),
+    (String ((Ascii (true, false, false, false, false, true, true, false)),
+    (String ((Ascii (false, true, false, false, true, true, true, false)),
+    (String ((Ascii (false, true, true, true, false, true, true, false)),
+    (String ((Ascii (false, false, false, false, false, true, false, false)),
+    (String ((Ascii (true, false, true, true, false, true, true, false)),
+    (String ((Ascii (true, true, true, true, false, true, true, false)),
+    (String ((Ascii (false, true, false, false, true, true, true, false)),
+    (String ((Ascii (true, false, true, false, false, true, true, false)),
+    (String ((Ascii (false, false, false, false, false, true, false, false)),
+    (String ((Ascii (true, false, false, false, false, true, true, false)),
+    (String ((Ascii (false, true, false, false, false, true, true, false)),
+    (String ((Ascii (true, true, true, true, false, true, true, false)),
+    (String ((Ascii (true, false, true, false, true, true, true, false)),
+    (String ((Ascii (false, false, true, false, true, true, true, false)),
+    (String ((Ascii (false, false, false, false, false, true, false, false)),
+    (String ((Ascii (false, false, true, false, true, true, true, false)),
+    (String ((Ascii (false, false, false, true, false, true, true, false)),
+    (String ((Ascii (true, false, true, false, false, true, true, false)),
+    (String ((Ascii (false, false, false, false, false, true, false, false)),
+    (String ((Ascii (true, false, true, false, false, true, true, false)),
+    (String ((Ascii (false, false, false, true, true, true, true, false)),
+    (String ((Ascii (false, false, false, false, true, true, true, false)),
+    (String ((Ascii (false, false, true, true, false, true, true, false)),
+    (String ((Ascii (true, false, false, true, false, true, true, false)),
+    (String ((Ascii (true, true, false, false, false, true, true, false)),
+    (String ((Ascii (true, false, false, true, false, true, true, false)),
+    (String ((Ascii (false, false, true, false, true, true, true, false)),
+    (String ((Ascii (false, false, false, false, false, true, false, false)),
+    (String ((Ascii (false, false, true, false, false, true, true, false)),
+    (String ((Ascii (true, false, false, true, false, true, true, false)),
+    (String ((Ascii (false, true, false, false, true, true, true, false)),
+    (String ((Ascii (true, false, true, false, false, true, true, false)),
+    (String ((Ascii (true, true, false, false, false, true, true, false)),
+    (String ((Ascii (true, false, false, true, false, true, true, false)),
+    (String ((Ascii (false, false, true, false, true, true, true, false)),
+    (String ((Ascii (false, true, true, false, true, true, true, false)),
+    (String ((Ascii (true, false, true, false, false, true, true, false)),
+    (String ((Ascii (false, false, false, false, false, true, false, false)),
+    (String ((Ascii (false, true, false, false, false, true, true, false)),
+    (String ((Ascii (true, true, true, true, false, true, true, false)),
+    (String ((Ascii (true, false, true, false, true, true, true, false)),
+    (String ((Ascii (false, true, true, true, false, true, true, false)),
+    (String ((Ascii (false, false, true, false, false, true, true, false)),
+    (String ((Ascii (true, false, false, false, false, true, true, false)),
+    (String ((Ascii (false, true, false, false, true, true, true, false)),
+    (String ((Ascii (true, false, false, true, false, true, true, false)),
+    (String ((Ascii (true, false, true, false, false, true, true, false)),
+    (String ((Ascii (true, true, false, false, true, true, true, false)),
+    (String ((Ascii (false, false, false, false, false, true, false, false)),
+    (String ((Ascii (false, false, false, true, false, true, true, false)),
+    (String ((Ascii (true, false, true, false, false, true, true, false)),
+    (String ((Ascii (false, true, false, false, true, true, true, false)),
+    (String ((Ascii (true, false, true, false, false, true, true, false)),
+    (String ((Ascii (false, true, false, true, true, true, false, false)),
+    (String ((Ascii (false, false, false, false, false, true, false, false)),
+    (String ((Ascii (false, false, false, true, false, true, true, false)),
+    (String ((Ascii (false, false, true, false, true, true, true, false)),
+    (String ((Ascii (false, false, true, false, true, true, true, false)),
+    (String ((Ascii (false, false, false, false, true, true, true, false)),
+    (String ((Ascii (true, true, false, false, true, true, true, false)),
+    (String ((Ascii (false, true, false, true, true, true, false, false)),
+    (String ((Ascii (true, true, true, true, false, true, false, false)),
+    (String ((Ascii (true, true, true, true, false, true, false, false)),
+    (String ((Ascii (false, true, false, true, false, true, true, false)),
+    (String ((Ascii (true, true, false, false, true, true, true, false)),
+    (String ((Ascii (true, false, false, true, false, true, true, false)),
+    (String ((Ascii (true, true, true, false, false, true, true, false)),
+    (String ((Ascii (false, false, false, true, false, true, true, false)),
+    (String ((Ascii (false, false, true, false, true, true, true, false)),
+    (String ((Ascii (false, true, true, true, false, true, false, false)),
+    (String ((Ascii (true, false, false, true, false, true, true, false)),
+    (String ((Ascii (true, true, true, true, false, true, true, false)),
+    (String ((Ascii (true, true, true, true, false, true, false, false)),
+    (String ((Ascii (false, false, true, false, false, true, true, false)),
+    (String ((Ascii (true, true, true, true, false, true, true, false)),
+    (String ((Ascii (true, true, false, false, false, true, true, false)),
+    (String ((Ascii (true, true, false, false, true, true, true, false)),
+    (String ((Ascii (true, true, true, true, false, true, false, false)),
+    (String ((Ascii (false, true, false, true, false, true, true, false)),
+    (String ((Ascii (true, true, false, false, true, true, true, false)),
+    (String ((Ascii (true, false, false, true, false, true, true, false)),
+    (String ((Ascii (true, true, true, false, false, true, true, false)),
+    (String ((Ascii (false, false, false, true, false, true, true, false)),
+    (String ((Ascii (false, false, true, false, true, true, true, false)),
+    (String ((Ascii (true, false, true, true, false, true, false, false)),
+    (String ((Ascii (true, false, false, false, false, true, true, false)),
+    (String ((Ascii (false, false, false, false, true, true, true, false)),
+    (String ((Ascii (true, false, false, true, false, true, true, false)),
+    (String ((Ascii (true, false, true, true, false, true, false, false)),
+    (String ((Ascii (false, false, false, false, true, true, false, false)),
+    (String ((Ascii (true, false, true, true, false, true, false, false)),
+    (String ((Ascii (true, true, false, false, true, true, false, false)),
+    (String ((Ascii (true, true, false, false, false, true, false, false)),
+    (String ((Ascii (false, true, false, false, false, true, true, false)),
+    (String ((Ascii (true, true, true, true, false, true, true, false)),
+    (String ((Ascii (true, false, true, false, true, true, true, false)),
+    (String ((Ascii (false, true, true, true, false, true, true, false)),
+    (String ((Ascii (false, false, true, false, false, true, true, false)),
+    (String ((Ascii (true, false, false, false, false, true, true, false)),
+    (String ((Ascii (false, true, false, false, true, true, true, false)),
+    (String ((Ascii (true, false, false, true, false, true, true, false)),
+    (String ((Ascii (true, false, true, false, false, true, true, false)),
+    (String ((Ascii (true, true, false, false, true, true, true, false)),
+    (String ((Ascii (true, false, true, true, false, true, false, false)),
+    (String ((Ascii (true, true, true, true, false, true, true, false)),
+    (String ((Ascii (false, true, true, false, false, true, true, false)),
+    (String ((Ascii (true, false, true, true, false, true, false, false)),
+    (String ((Ascii (false, false, true, false, true, true, true, false)),
+    (String ((Ascii (false, false, false, true, false, true, true, false)),
+    (String ((Ascii (true, false, true, false, false, true, true, false)),
+    (String ((Ascii (true, false, true, true, false, true, false, false)),
+    (String ((Ascii (false, true, false, false, false, true, true, false)),
+    (String ((Ascii (true, true, true, true, false, true, true, false)),
+    (String ((Ascii (false, false, true, false, false, true, true, false)),
+    (String ((Ascii (true, false, false, true, true, true, true, false)),
+    (String ((Ascii (true, false, true, true, false, true, false, false)),
+    (String ((Ascii (true, true, true, true, false, true, true, false)),
+    (String ((Ascii (false, true, true, false, false, true, true, false)),
+    (String ((Ascii (true, false, true, true, false, true, false, false)),
+    (String ((Ascii (false, false, true, false, true, true, true, false)),
+    (String ((Ascii (false, false, false, true, false, true, true, false)),
+    (String ((Ascii (true, false, true, false, false, true, true, false)),
+    (String ((Ascii (true, false, true, true, false, true, false, false)),
+    (String ((Ascii (false, false, true, false, false, true, true, false)),
+    (String ((Ascii (true, false, false, true, false, true, true, false)),
+    (String ((Ascii (false, true, false, false, true, true, true, false)),
+    (String ((Ascii (true, false, true, false, false, true, true, false)),
+    (String ((Ascii (true, true, false, false, false, true, true, false)),
+    (String ((Ascii (false, false, true, false, true, true, true, false)),
+    (String ((Ascii (true, false, false, true, false, true, true, false)),
+    (String ((Ascii (false, true, true, false, true, true, true, false)),
+    (String ((Ascii (true, false, true, false, false, true, true, false)),
+    EmptyString)))))))))))))))))))))))))))))))))))))))))))))))))))))))))))))))))))))))))))))))))))))))))))))))))))))))))))))))))))))))))))))))))))))))))))))))))))))))))))))))))))))))))))))))))))))))))))))))))))))))))))))))))))))))))))))))))))))))))))))))))))))))))))))))))))))))))))))))))))))))))))))))))))))))))))))))))))))))))))))))))))))))))))))))))))))))))))
+
+(** val jerr_DuplicateNames : string **)
+
+let jerr_DuplicateNames =
+  String ((Ascii (false, false, true, false, true, true, true, false)),
+    (String ((Ascii (false, false, false, true, false, true, true, false)),
+    (String ((Ascii (true, false, true, false, false, true, true, false)),
+    (String ((Ascii (false, false, false, false, false, true, false, false)),
+    (String ((Ascii (false, true, true, true, false, true, true, false)),
+    (String ((Ascii (true, false, false, false, false, true, true, false)),
+    (String ((Ascii (true, false, true, true, false, true, true, false)),
+    (String ((Ascii (true, false, true, false, false, true, true, false)),
+    (String ((Ascii (false, false, false, false, false, true, false, false)),
+    (String ((Ascii (true, false, true, false, false, true, false, false)),
+    (String ((Ascii (true, false, false, false, true, true, true, false)),
+    (String ((Ascii (false, false, false, false, false, true, false, false)),
+    (String ((Ascii (false, false, false, true, false, true, true, false)),
+    (String ((Ascii (true, false, false, false, false, true, true, false)),
+    (String ((Ascii (true, true, false, false, true, true, true, false)),
+    (String ((Ascii (false, false, false, false, false, true, false, false)),
+    (String ((Ascii (true, false, false, false, false, true, true, false)),
+    (String ((Ascii (false, false, true, true, false, true, true, false)),
+    (String ((Ascii (false, true, false, false, true, true, true, false)),
+    (String ((Ascii (true, false, true, false, false, true, true, false)),
+    (String ((Ascii (true, false, false, false, false, true, true, false)),
+    (String ((Ascii (false, false, true, false, false, true, true, false)),
+    (String ((Ascii (true, false, false, true, true, true, true, false)),
+    (String ((Ascii (false, false, false, false, false, true, false, false)),
+    (String ((Ascii (false, true, false, false, false, true, true, false)),
+    (String ((Ascii (true, false, true, false, false, true, true, false)),
+    (String ((Ascii (true, false, true, false, false, true, true, false)),
+    (String ((Ascii (false, true, true, true, false, true, true, false)),
+    (String ((Ascii (false, false, false, false, false, true, false, false)),
+    (String ((Ascii (false, false, true, false, false, true, true, false)),
+    (String ((Ascii (true, false, true, false, false, true, true, false)),
+    (String ((Ascii (true, true, false, false, false, true, true, false)),
+    (String ((Ascii (false, false, true, true, false, true, true, false)),
+    (String ((Ascii (true, false, false, false, false, true, true, false)),
+    (String ((Ascii (false, true, false, false, true, true, true, false)),
+    (String ((Ascii (true, false, true, false, false, true, true, false)),
+    (String ((Ascii (false, false, true, false, false, true, true, false)),
+    (String ((Ascii (false, false, false, false, false, true, false, false)),
+    (String ((Ascii (false, true, false, false, false, true, true, false)),
+    (String ((Ascii (true, false, true, false, false, true, true, false)),
+    (String ((Ascii (false, true, true, false, false, true, true, false)),
+    (String ((Ascii (true, true, true, true, false, true, true, false)),
+    (String ((Ascii (false, true, false, false, true, true, true, false)),
+    (String ((Ascii (true, false, true, false, false, true, true, false)),
+    EmptyString)))))))))))))))))))))))))))))))))))))))))))))))))))))))))))))))))))))))))))))))))))))))
+
+(** val jerr_IncludeDirectiveErr : string **)
+
+let jerr_IncludeDirectiveErr =
+  String ((Ascii (false, false, true, false, true, true, true, false)),
+    (String ((Ascii (false, false, false, true, false, true, true, false)),
+    (String ((Ascii (true, false, true, false, false, true, true, false)),
+    (String ((Ascii (false, false, false, false, false, true, false, false)),
+    (String ((Ascii (false, false, true, false, false, true, true, false)),
+    (String ((Ascii (true, false, false, true, false, true, true, false)),
+    (String ((Ascii (false, true, false, false, true, true, true, false)),
+    (String ((Ascii (true, false, true, false, false, true, true, false)),
+    (String ((Ascii (true, true, false, false, false, true, true, false)),
+    (String ((Ascii (false, false, true, false, true, true, true, false)),
+    (String ((Ascii (true, false, false, true, false, true, true, false)),
+    (String ((Ascii (false, true, true, false, true, true, true, false)),
+    (String ((Ascii (true, false, true, false, false, true, true, false)),
+    (String ((Ascii (false, false, false, false, false, true, false, false)),
+    (String ((Ascii (true, false, false, true, false, true, true, false)),
+    (String ((Ascii (true, true, false, false, true, true, true, false)),
+    (String ((Ascii (false, false, false, false, false, true, false, false)),
+    (String ((Ascii (false, true, true, true, false, true, true, false)),
+    (String ((Ascii (true, true, true, true, false, true, true, false)),
+    (String ((Ascii (false, false, true, false, true, true, true, false)),
+    (String ((Ascii (false, false, false, false, false, true, false, false)),
+    (String ((Ascii (true, false, false, false, false, true, true, false)),
+    (String ((Ascii (false, false, true, true, false, true, true, false)),
+    (String ((Ascii (false, false, true, true, false, true, true, false)),
+    (String ((Ascii (true, true, true, true, false, true, true, false)),
+    (String ((Ascii (true, true, true, false, true, true, true, false)),
+    (String ((Ascii (true, false, true, false, false, true, true, false)),
+    (String ((Ascii (false, false, true, false, false, true, true, false)),
+    (String ((Ascii (false, false, false, false, false, true, false, false)),
+    (String ((Ascii (true, false, false, true, false, true, true, false)),
+    (String ((Ascii (false, true, true, true, false, true, true, false)),
+    (String ((Ascii (false, false, false, false, false, true, false, false)),
+    (String ((Ascii (true, false, false, true, false, true, true, false)),
+    (String ((Ascii (false, true, true, true, false, true, true, false)),
+    (String ((Ascii (true, true, false, false, false, true, true, false)),
+    (String ((Ascii (false, false, true, true, false, true, true, false)),
+    (String ((Ascii (true, false, true, false, true, true, true, false)),
+    (String ((Ascii (false, false, true, false, false, true, true, false)),
+    (String ((Ascii (true, false, true, false, false, true, true, false)),
+    (String ((Ascii (false, false, true, false, false, true, true, false)),
+    (String ((Ascii (false, false, false, false, false, true, false, false)),
+    (String ((Ascii (false, true, true, false, false, true, true, false)),
+    (String ((Ascii (true, false, false, true, false, true, true, false)),
+    (String ((Ascii (false, false, true, true, false, true, true, false)),
+    (String ((Ascii (true, false, true, false, false, true, true, false)),
+    (String ((Ascii (true, true, false, false, true, true, true, false)),
+    (String ((Ascii (false, true, false, true, true, true, false, false)),
+    EmptyString)))))))))))))))))))))))))))))))))))))))))))))))))))))))))))))))))))))))))))))))))))))))))))))
+
+(** val jerr_IncorrectDirectiveContext : string **)
+
+let jerr_IncorrectDirectiveContext =
+  String ((Ascii (true, false, false, true, false, true, true, false)),
+    (String ((Ascii (false, true, true, true, false, true, true, false)),
+    (String ((Ascii (true, true, false, false, false, true, true, false)),
+    (String ((Ascii (true, true, true, true, false, true, true, false)),
+    (String ((Ascii (false, true, false, false, true, true, true, false)),
+    (String ((Ascii (false, true, false, false, true, true, true, false)),
+    (String ((Ascii (true, false, true, false, false, true, true, false)),
+    (String ((Ascii (true, true, false, false, false, true, true, false)),
+    (String ((Ascii (false, false, true, false, true, true, true, false)),
+    (String ((Ascii (false, false, false, false, false, true, false, false)),
+    (String ((Ascii (true, true, false, false, false, true, true, false)),
+    (String ((Ascii (true, true, true, true, false, true, true, false)),
+    (String ((Ascii (false, true, true, true, false, true, true, false)),
+    (String ((Ascii (false, false, true, false, true, true, true, false)),
+    (String ((Ascii (true, false, true, false, false, true, true, false)),
+    (String ((Ascii (false, false, false, true, true, true, true, false)),
+    (String ((Ascii (false, false, true, false, true, true, true, false)),
+    (String ((Ascii (false, false, false, false, false, true, false, false)),
+    (String ((Ascii (false, true, true, false, false, true, true, false)),
+    (String ((Ascii (true, true, true, true, false, true, true, false)),
+    (String ((Ascii (false, true, false, false, true, true, true, false)),
+    (String ((Ascii (false, false, false, false, false, true, false, false)),
+    (String ((Ascii (false, false, true, false, true, true, true, false)),
+    (String ((Ascii (false, false, false, true, false, true, true, false)),
+    (String ((Ascii (true, false, true, false, false, true, true, false)),
+    (String ((Ascii (false, false, false, false, false, true, false, false)),
+    (String ((Ascii (false, false, true, false, false, true, true, false)),
+    (String ((Ascii (true, false, false, true, false, true, true, false)),
+    (String ((Ascii (false, true, false, false, true, true, true, false)),
+    (String ((Ascii (true, false, true, false, false, true, true, false)),
+    (String ((Ascii (true, true, false, false, false, true, true, false)),
+    (String ((Ascii (false, false, true, false, true, true, true, false)),
+    (String ((Ascii (true, false, false, true, false, true, true, false)),
+    (String ((Ascii (false, true, true, false, true, true, true, false)),
+    (String ((Ascii (true, false, true, false, false, true, true, false)),
+    EmptyString)))))))))))))))))))))))))))))))))))))))))))))))))))))))))))))))))))))
+
+(** val jerr_IncorrectParameter : string **)
+
+let jerr_IncorrectParameter =
+  String ((Ascii (true, false, false, true, false, true, true, false)),
+    (String ((Ascii (false, true, true, true, false, true, true, false)),
+    (String ((Ascii (true, true, false, false, false, true, true, false)),
+    (String ((Ascii (true, true, true, true, false, true, true, false)),
+    (String ((Ascii (false, true, false, false, true, true, true, false)),
+    (String ((Ascii (false, true, false, false, true, true, true, false)),
+    (String ((Ascii (true, false, true, false, false, true, true, false)),
+    (String ((Ascii (true, true, false, false, false, true, true, false)),
+    (String ((Ascii (false, false, true, false, true, true, true, false)),
+    (String ((Ascii (false, false, false, false, false, true, false, false)),
+    (String ((Ascii (false, false, false, false, true, true, true, false)),
+    (String ((Ascii (true, false, false, false, false, true, true, false)),
+    (String ((Ascii (false, true, false, false, true, true, true, false)),
+    (String ((Ascii (true, false, false, false, false, true, true, false)),
+    (String ((Ascii (true, false, true, true, false, true, true, false)),
+    (String ((Ascii (true, false, true, false, false, true, true, false)),
+    (String ((Ascii (false, false, true, false, true, true, true, false)),
+    (String ((Ascii (true, false, true, false, false, true, true, false)),
+    (String ((Ascii (false, true, false, false, true, true, true, false)),
+    EmptyString)))))))))))))))))))))))))))))))))))))
+
+(** val jerr_MacroIsEmpty : string **)
+
+let jerr_MacroIsEmpty =
+  String ((Ascii (false, false, true, false, true, true, true, false)),
+    (String ((Ascii (false, false, false, true, false, true, true, false)),
+    (String ((Ascii (true, false, true, false, false, true, true, false)),
+    (String ((Ascii (false, false, false, false, false, true, false, false)),
+    (String ((Ascii (true, false, true, true, false, true, true, false)),
+    (String ((Ascii (true, false, false, false, false, true, true, false)),
+    (String ((Ascii (true, true, false, false, false, true, true, false)),
+    (String ((Ascii (false, true, false, false, true, true, true, false)),
+    (String ((Ascii (true, true, true, true, false, true, true, false)),
+    (String ((Ascii (true, true, false, false, true, true, true, false)),
+    (String ((Ascii (false, false, false, false, false, true, false, false)),
+    (String ((Ascii (true, true, false, false, false, true, true, false)),
+    (String ((Ascii (true, false, false, false, false, true, true, false)),
+    (String ((Ascii (false, true, true, true, false, true, true, false)),
+    (String ((Ascii (false, true, true, true, false, true, true, false)),
+    (String ((Ascii (true, true, true, true, false, true, true, false)),
+    (String ((Ascii (false, false, true, false, true, true, true, false)),
+    (String ((Ascii (false, false, false, false, false, true, false, false)),
+    (String ((Ascii (false, true, false, false, false, true, true, false)),
+    (String ((Ascii (true, false, true, false, false, true, true, false)),
+    (String ((Ascii (false, false, false, false, false, true, false, false)),
+    (String ((Ascii (true, false, true, false, false, true, true, false)),
+    (String ((Ascii (true, false, true, true, false, true, true, false)),
+    (String ((Ascii (false, false, false, false, true, true, true, false)),
+    (String ((Ascii (false, false, true, false, true, true, true, false)),
+    (String ((Ascii (true, false, false, true, true, true, true, false)),
+    (String ((Ascii (false, false, true, true, false, true, false, false)),
+    (String ((Ascii (false, false, false, false, false, true, false, false)),
+    (String ((Ascii (false, false, true, true, false, true, true, false)),
+    (String ((Ascii (true, false, true, false, false, true, true, false)),
+    (String ((Ascii (true, false, false, false, false, true, true, false)),
+    (String ((Ascii (false, true, false, false, true, true, true, false)),
+    (String ((Ascii (false, true, true, true, false, true, true, false)),
+    (String ((Ascii (false, false, false, false, false, true, false, false)),
+    (String ((Ascii (true, false, true, true, false, true, true, false)),
+    (String ((Ascii (true, true, true, true, false, true, true, false)),
+    (String ((Ascii (false, true, false, false, true, true, true, false)),
+    (String ((Ascii (true, false, true, false, false, true, true, false)),
+    (String ((Ascii (false, false, false, false, false, true, false, false)),
+    (String ((Ascii (true, false, false, false, false, true, true, false)),
+    (String ((Ascii (false, true, false, false, false, true, true, false)),
+    (String ((Ascii (true, true, true, true, false, true, true, false)),
+    (String ((Ascii (true, false, true, false, true, true, true, false)),
+    (String ((Ascii (false, false, true, false, true, true, true, false)),
+    (String ((Ascii (false, false, false, false, false, true, false, false)),
+    (String ((Ascii (false, false, true, false, true, true, true, false)),
+    (String ((Ascii (false, false, false, true, false, true, true, false)),
+    (String ((Ascii (true, false, true, false, false, true, true, false)),
+    (String ((Ascii (false, false, false, false, false, true, false, false)),
+    (String ((Ascii (true, false, true, true, false, false, true, false)),
+    (String ((Ascii (true, false, false, false, false, false, true, false)),
+    (String ((Ascii (true, true, false, false, false, false, true, false)),
+    (String ((Ascii (false, true, false, false, true, false, true, false)),
+    (String ((Ascii (true, true, true, true, false, false, true, false)),
+    (String ((Ascii (false, false, false, false, false, true, false, false)),
+    (String ((Ascii (false, false, true, false, false, true, true, false)),
+    (String ((Ascii (true, false, false, true, false, true, true, false)),
+    (String ((Ascii (false, true, false, false, true, true, true, false)),
+    (String ((Ascii (true, false, true, false, false, true, true, false)),
+    (String ((Ascii (true, true, false, false, false, true, true, false)),
+    (String ((Ascii (false, false, true, false, true, true, true, false)),
+    (String ((Ascii (true, false, false, true, false, true, true, false)),
+    (String ((Ascii (false, true, true, false, true, true, true, false)),
+    (String ((Ascii (true, false, true, false, false, true, true, false)),
+    (String ((Ascii (false, false, false, false, false, true, false, false)),
+    (String ((Ascii (false, false, false, true, false, true, true, false)),
+    (String ((Ascii (true, false, true, false, false, true, true, false)),
+    (String ((Ascii (false, true, false, false, true, true, true, false)),
+    (String ((Ascii (true, false, true, false, false, true, true, false)),
+    (String ((Ascii (false, true, false, true, true, true, false, false)),
+    (String ((Ascii (false, false, false, false, false, true, false, false)),
+    (String ((Ascii (false, false, false, true, false, true, true, false)),
+    (String ((Ascii (false, false, true, false, true, true, true, false)),
+    (String ((Ascii (false, false, true, false, true, true, true, false)),
+    (String ((Ascii (false, false, false, false, true, true, true, false)),
+    (String ((Ascii (true, true, false, false, true, true, true, false)),
+    (String ((Ascii (false, true, false, true, true, true, false, false)),
+    (String ((Ascii (true, true, true, true, false, true, false, false)),
+    (String ((Ascii (true, true, true, true, false, true, false, false)),
+    (String ((Ascii (false, true, false, true, false, true, true, false)),
+    (String ((Ascii (true, true, false, false, true, true, true, false)),
+    (String ((Ascii (true, false, false, true, false, true, true, false)),
+    (String ((Ascii (true, true, true, false, false, true, true, false)),
+    (String ((Ascii (false, false, false, true, false, true, true, false)),
+    (String ((Ascii (false, false, true, false, true, true, true, false)),
+    (String ((Ascii (false, true, true, true, false, true, false, false)),
+    (String ((Ascii (true, false, false, true, false, true, true, false)),
+    (String ((Ascii (true, true, true, true, false, true, true, false)),
+    (String ((Ascii (true, true, true, true, false, true, false, false)),
+    (String ((Ascii (false, false, true, false, false, true, true, false)),
+    (String ((Ascii (true, true, true, true, false, true, true, false)),
+    (String ((Ascii (true, true, false, false, false, true, true, false)),
+    (String ((Ascii (true, true, false, false, true, true, true, false)),
+    (String ((Ascii (true, true, true, true, false, true, false, false)),
+    (String ((Ascii (false, true, false, true, false, true, true, false)),
+    (String ((Ascii (true, true, false, false, true, true, true, false)),
+    (String ((Ascii (true, false, false, true, false, true, true, false)),
+    (String ((Ascii (true, true, true, false, false, true, true, false)),
+    (String ((Ascii (false, false, false, true, false, true, true, false)),
+    (String ((Ascii (false, false, true, false, true, true, true, false)),
+    (String ((Ascii (true, false, true, true, false, true, false, false)),
+    (String ((Ascii (true, false, false, false, false, true, true, false)),
+    (String ((Ascii (false, false, false, false, true, true, true, false)),
+    (String ((Ascii (true, false, false, true, false, true, true, false)),
+    (String ((Ascii (true, false, true, true, false, true, false, false)),
+    (String ((Ascii (false, false, false, false, true, true, false, false)),
+    (String ((Ascii (true, false, true, true, false, true, false, false)),
+    (String ((Ascii (true, true, false, false, true, true, false, false)),
+    (String ((Ascii (true, true, false, false, false, true, false, false)),
+    (String ((Ascii (false, false, true, false, false, true, true, false)),
+    (String ((Ascii (true, false, false, true, false, true, true, false)),
+    (String ((Ascii (false, true, false, false, true, true, true, false)),
+    (String ((Ascii (true, false, true, false, false, true, true, false)),
+    (String ((Ascii (true, true, false, false, false, true, true, false)),
+    (String ((Ascii (false, false, true, false, true, true, true, false)),
+    (String ((Ascii (true, false, false, true, false, true, true, false)),
+    (String ((Ascii (false, true, true, false, true, true, true, false)),
+    (String ((Ascii (true, false, true, false, false, true, true, false)),
+    (String ((Ascii (true, false, true, true, false, true, false, false)),
+    (String ((Ascii (true, false, true, true, false, true, true, false)),
+    (String ((Ascii (true, false, false, false, false, true, true, false)),
+    (String ((Ascii (true, true, false, false, false, true, true, false)),
+    (String ((Ascii (false, true, false, false, true, true, true, false)),
+    (String ((Ascii (true, true, true, true, false, true, true, false)),
+    EmptyString)))))))))))))))))))))))))))))))))))))))))))))))))))))))))))))))))))))))))))))))))))))))))))))))))))))))))))))))))))))))))))))))))))))))))))))))))))))))))))))))))))))))))))))))))))))))))))))))))))))))))))))))))))))))))))))))))))))))))))))))))))))))
+
+(** val jerr_MacroNotFound : string **)
+
+let jerr_MacroNotFound =
+  String ((Ascii (true, false, true, true, false, true, true, false)),
+    (String ((Ascii (true, false, false, false, false, true, true, false)),
+    (String ((Ascii (true, true, false, false, false, true, true, false)),
+    (String ((Ascii (false, true, false, false, true, true, true, false)),
+    (String ((Ascii (true, true, true, true, false, true, true, false)),
+    (String ((Ascii (false, false, false, false, false, true, false, false)),
+    (String ((Ascii (false, true, true, true, false, true, true, false)),
+    (String ((Ascii (true, true, true, true, false, true, true, false)),
+    (String ((Ascii (false, false, true, false, true, true, true, false)),
+    (String ((Ascii (false, false, false, false, false, true, false, false)),
+    (String ((Ascii (false, true, true, false, false, true, true, false)),
+    (String ((Ascii (true, true, true, true, false, true, true, false)),
+    (String ((Ascii (true, false, true, false, true, true, true, false)),
+    (String ((Ascii (false, true, true, true, false, true, true, false)),
+    (String ((Ascii (false, false, true, false, false, true, true, false)),
+    EmptyString)))))))))))))))))))))))))))))
+
+(** val jerr_ParametersIsAlreadyDefined : string **)
+
+let jerr_ParametersIsAlreadyDefined =
+  String ((Ascii (false, false, true, false, true, true, true, false)),
+    (String ((Ascii (false, false, false, true, false, true, true, false)),
+    (String ((Ascii (true, false, true, false, false, true, true, false)),
+    (String ((Ascii (false, false, false, false, false, true, false, false)),
+    (String ((Ascii (false, false, false, false, true, true, true, false)),
+    (String ((Ascii (true, false, false, false, false, true, true, false)),
+    (String ((Ascii (false, true, false, false, true, true, true, false)),
+    (String ((Ascii (true, false, false, false, false, true, true, false)),
+    (String ((Ascii (true, false, true, true, false, true, true, false)),
+    (String ((Ascii (true, false, true, false, false, true, true, false)),
+    (String ((Ascii (false, false, true, false, true, true, true, false)),
+    (String ((Ascii (true, false, true, false, false, true, true, false)),
+    (String ((Ascii (false, true, false, false, true, true, true, false)),
+    (String ((Ascii (false, false, false, false, false, true, false, false)),
+    (String ((Ascii (true, false, true, false, false, true, false, false)),
+    (String ((Ascii (true, false, false, false, true, true, true, false)),
+    (String ((Ascii (false, false, false, false, false, true, false, false)),
+    (String ((Ascii (true, false, false, true, false, true, true, false)),
+    (String ((Ascii (true, true, false, false, true, true, true, false)),
+    (String ((Ascii (false, false, false, false, false, true, false, false)),
+    (String ((Ascii (true, false, false, false, false, true, true, false)),
+    (String ((Ascii (false, false, true, true, false, true, true, false)),
+    (String ((Ascii (false, true, false, false, true, true, true, false)),
+    (String ((Ascii (true, false, true, false, false, true, true, false)),
+    (String ((Ascii (true, false, false, false, false, true, true, false)),
+    (String ((Ascii (false, false, true, false, false, true, true, false)),
+    (String ((Ascii (true, false, false, true, true, true, true, false)),
+    (String ((Ascii (false, false, false, false, false, true, false, false)),
+    (String ((Ascii (false, false, true, false, false, true, true, false)),
+    (String ((Ascii (true, false, true, false, false, true, true, false)),
+    (String ((Ascii (false, true, true, false, false, true, true, false)),
+    (String ((Ascii (true, false, false, true, false, true, true, false)),
+    (String ((Ascii (false, true, true, true, false, true, true, false)),
+    (String ((Ascii (true, false, true, false, false, true, true, false)),
+    (String ((Ascii (false, false, true, false, false, true, true, false)),
+    (String ((Ascii (false, false, false, false, false, true, false, false)),
+    (String ((Ascii (false, true, true, false, false, true, true, false)),
+    (String ((Ascii (true, true, true, true, false, true, true, false)),
+    (String ((Ascii (false, true, false, false, true, true, true, false)),
+    (String ((Ascii (false, false, false, false, false, true, false, false)),
+    (String ((Ascii (false, false, true, false, true, true, true, false)),
+    (String ((Ascii (false, false, false, true, false, true, true, false)),
+    (String ((Ascii (true, false, true, false, false, true, true, false)),
+    (String ((Ascii (false, false, false, false, false, true, false, false)),
+    (String ((Ascii (false, false, true, false, false, true, true, false)),
+    (String ((Ascii (true, false, false, true, false, true, true, false)),
+    (String ((Ascii (false, true, false, false, true, true, true, false)),
+    (String ((Ascii (true, false, true, false, false, true, true, false)),
+    (String ((Ascii (true, true, false, false, false, true, true, false)),
+    (String ((Ascii (false, false, true, false, true, true, true, false)),
+    (String ((Ascii (true, false, false, true, false, true, true, false)),
+    (String ((Ascii (false, true, true, false, true, true, true, false)),
+    (String ((Ascii (true, false, true, false, false, true, true, false)),
+    EmptyString)))))))))))))))))))))))))))))))))))))))))))))))))))))))))))))))))))))))))))))))))))))))))))))))))))))))))
+
+(** val jerr_RecursionIsProhibited : string **)
+
+let jerr_RecursionIsProhibited =
+  String ((Ascii (false, true, true, false, false, true, true, false)),
+    (String ((Ascii (true, false, false, true, false, true, true, false)),
+    (String ((Ascii (false, false, true, true, false, true, true, false)),
+    (String ((Ascii (true, false, true, false, false, true, true, false)),
+    (String ((Ascii (false, false, false, false, false, true, false, false)),
+    (String ((Ascii (false, false, true, false, false, true, true, false)),
+    (String ((Ascii (true, false, true, false, false, true, true, false)),
+    (String ((Ascii (false, false, false, false, true, true, true, false)),
+    (String ((Ascii (true, false, true, false, false, true, true, false)),
+    (String ((Ascii (false, true, true, true, false, true, true, false)),
+    (String ((Ascii (false, false, true, false, false, true, true, false)),
+    (String ((Ascii (true, false, true, false, false, true, true, false)),
+    (String ((Ascii (false, true, true, true, false, true, true, false)),
+    (String ((Ascii (true, true, false, false, false, true, true, false)),
+    (String ((Ascii (true, false, false, true, true, true, true, false)),
+    (String ((Ascii (false, false, false, false, false, true, false, false)),
+    (String ((Ascii (false, true, false, false, true, true, true, false)),
+    (String ((Ascii (true, false, true, false, false, true, true, false)),
+    (String ((Ascii (true, true, false, false, false, true, true, false)),
+    (String ((Ascii (true, false, true, false, true, true, true, false)),
+    (String ((Ascii (false, true, false, false, true, true, true, false)),
+    (String ((Ascii (true, true, false, false, true, true, true, false)),
+    (String ((Ascii (true, false, false, true, false, true, true, false)),
+    (String ((Ascii (true, true, true, true, false, true, true, false)),
+    (String ((Ascii (false, true, true, true, false, true, true, false)),
+    (String ((Ascii (false, false, false, false, false, true, false, false)),
+    (String ((Ascii (true, false, false, true, false, true, true, false)),
+    (String ((Ascii (true, true, false, false, true, true, true, false)),
+    (String ((Ascii (false, false, false, false, false, true, false, false)),
+    (String ((Ascii (false, false, true, false, false, true, true, false)),
+    (String ((Ascii (true, false, true, false, false, true, true, false)),
+    (String ((Ascii (false, false, true, false, true, true, true, false)),
+    (String ((Ascii (true, false, true, false, false, true, true, false)),
+    (String ((Ascii (true, true, false, false, false, true, true, false)),
+    (String ((Ascii (false, false, true, false, true, true, true, false)),
+    (String ((Ascii (true, false, true, false, false, true, true, false)),
+    (String ((Ascii (false, false, true, false, false, true, true, false)),
+    (String ((Ascii (false, false, true, true, false, true, false, false)),
+    (String ((Ascii (false, false, false, false, false, true, false, false)),
+    (String ((Ascii (false, false, true, true, false, true, true, false)),
+    (String ((Ascii (true, false, true, false, false, true, true, false)),
+    (String ((Ascii (true, false, false, false, false, true, true, false)),
+    (String ((Ascii (false, true, false, false, true, true, true, false)),
+    (String ((Ascii (false, true, true, true, false, true, true, false)),
+    (String ((Ascii (false, false, false, false, false, true, false, false)),
+    (String ((Ascii (true, false, true, true, false, true, true, false)),
+    (String ((Ascii (true, true, true, true, false, true, true, false)),
+    (String ((Ascii (false, true, false, false, true, true, true, false)),
+    (String ((Ascii (true, false, true, false, false, true, true, false)),
+    (String ((Ascii (false, false, false, false, false, true, false, false)),
+    (String ((Ascii (true, false, false, false, false, true, true, false)),
+    (String ((Ascii (false, true, false, false, false, true, true, false)),
+    (String ((Ascii (true, true, true, true, false, true, true, false)),
+    (String ((Ascii (true, false, true, false, true, true, true, false)),
+    (String ((Ascii (false, false, true, false, true, true, true, false)),
+    (String ((Ascii (false, false, false, false, false, true, false, false)),
+    (String ((Ascii (false, false, true, false, true, true, true, false)),
+    (String ((Ascii (false, false, false, true, false, true, true, false)),
+    (String ((Ascii (true, false, true, false, false, true, true, false)),
+    (String ((Ascii (false, false, false, false, false, true, false, false)),
+    (String ((Ascii (true, false, false, true, false, false, true, false)),
+    (String ((Ascii (false, true, true, true, false, false, true, false)),
+    (String ((Ascii (true, true, false, false, false, false, true, false)),
+    (String ((Ascii (false, false, true, true, false, false, true, false)),
+    (String ((Ascii (true, false, true, false, true, false, true, false)),
+    (String ((Ascii (false, false, true, false, false, false, true, false)),
+    (String ((Ascii (true, false, true, false, false, false, true, false)),
+    (String ((Ascii (false, false, false, false, false, true, false, false)),
+    (String ((Ascii (false, false, true, false, false, true, true, false)),
+    (String ((Ascii (true, false, false, true, false, true, true, false)),
+    (String ((Ascii (false, true, false, false, true, true, true, false)),
+    (String ((Ascii (true, false, true, false, false, true, true, false)),
+    (String ((Ascii (true, true, false, false, false, true, true, false)),
+    (String ((Ascii (false, false, true, false, true, true, true, false)),
+    (String ((Ascii (true, false, false, true, false, true, true, false)),
+    (String ((Ascii (false, true, true, false, true, true, true, false)),
+    (String ((Ascii (true, false, true, false, false, true, true, false)),
+    (String ((Ascii (false, false, false, false, false, true, false, false)),
+    (String ((Ascii (false, false, false, true, false, true, true, false)),
+    (String ((Ascii (true, false, true, false, false, true, true, false)),
+    (String ((Ascii (false, true, false, false, true, true, true, false)),
+    (String ((Ascii (true, false, true, false, false, true, true, false)),
+    (String ((Ascii (false, true, false, true, true, true, false, false)),
+    (String ((Ascii (false, false, false, false, false, true, false, false)),
+    (String ((Ascii (false, false, false, true, false, true, true, false)),
+    (String ((Ascii (false, false, true, false, true, true, true, false)),
+    (String ((Ascii (false, false, true, false, true, true, true, false)),
+    (String ((Ascii (false, false, false, false, true, true, true, false)),
+    (String ((Ascii (true, true, false, false, true, true, true, false)),
+    (String ((Ascii (false, true, false, true, true, true, false, false)),
+    (String ((Ascii (true, true, true, true, false, true, false, false)),
+    (String ((Ascii (true, true, true, true, false, true, false, false)),
+    (String ((Ascii (false, true, false, true, false, true, true, false)),
+    (String ((Ascii (true, true, false, false, true, true, true, false)),
+    (String ((Ascii (true, false, false, true, false, true, true, false)),
+    (String ((Ascii (true, true, true, false, false, true, true, false)),
+    (String ((Ascii (false, false, false, true, false, true, true, false)),
+    (String ((Ascii (false, false, true, false, true, true, true, false)),
+    (String ((Ascii (false, true, true, true, false, true, false, false)),
+    (String ((Ascii (true, false, false, true, false, true, true, false)),
+    (String ((Ascii (true, true, true, true, false, true, true, false)),
+    (String ((Ascii (true, true, true, true, false, true, false, false)),
+    (String ((Ascii (false, false, true, false, false, true, true, false)),
+    (String ((Ascii (true, true, true, true, false, true, true, false)),
+    (String ((Ascii (true, true, false, false, false, true, true, false)),
+    (String ((Ascii (true, true, false, false, true, true, true, false)),
+    (String ((Ascii (true, true, true, true, false, true, false, false)),
+    (String ((Ascii (false, true, false, true, false, true, true, false)),
+    (String ((Ascii (true, true, false, false, true, true, true, false)),
+    (String ((Ascii (true, false, false, true, false, true, true, false)),
+    (String ((Ascii (true, true, true, false, false, true, true, false)),
+    (String ((Ascii (false, false, false, true, false, true, true, false)),
+    (String ((Ascii (false, false, true, false, true, true, true, false)),
+    (String ((Ascii (true, false, true, true, false, true, false, false)),
+    (String ((Ascii (true, false, false, false, false, true, true, false)),
+    (String ((Ascii (false, false, false, false, true, true, true, false)),
+    (String ((Ascii (true, false, false, true, false, true, true, false)),
+    (String ((Ascii (true, false, true, true, false, true, false, false)),
+    (String ((Ascii (false, false, false, false, true, true, false, false)),
+    (String ((Ascii (true, false, true, true, false, true, false, false)),
+    (String ((Ascii (true, true, false, false, true, true, false, false)),
+    (String ((Ascii (true, true, false, false, false, true, false, false)),
+    (String ((Ascii (false, false, true, false, false, true, true, false)),
+    (String ((Ascii (true, false, false, true, false, true, true, false)),
+    (String ((Ascii (false, true, false, false, true, true, true, false)),
+    (String ((Ascii (true, false, true, false, false, true, true, false)),
+    (String ((Ascii (true, true, false, false, false, true, true, false)),
+    (String ((Ascii (false, false, true, false, true, true, true, false)),
+    (String ((Ascii (true, false, false, true, false, true, true, false)),
+    (String ((Ascii (false, true, true, false, true, true, true, false)),
+    (String ((Ascii (true, false, true, false, false, true, true, false)),
+    (String ((Ascii (true, false, true, true, false, true, false, false)),
+    (String ((Ascii (true, false, false, true, false, true, true, false)),
+    (String ((Ascii (false, true, true, true, false, true, true, false)),
+    (String ((Ascii (true, true, false, false, false, true, true, false)),
+    (String ((Ascii (false, false, true, true, false, true, true, false)),
+    (String ((Ascii (true, false, true, false, true, true, true, false)),
+    (String ((Ascii (false, false, true, false, false, true, true, false)),
+    (String ((Ascii (true, false, true, false, false, true, true, false)),
+    EmptyString)))))))))))))))))))))))))))))))))))))))))))))))))))))))))))))))))))))))))))))))))))))))))))))))))))))))))))))))))))))))))))))))))))))))))))))))))))))))))))))))))))))))))))))))))))))))))))))))))))))))))))))))))))))))))))))))))))))))))))))))))))))))))))))))))))))))))))))))))))))
+
+(** val jerr_RequiredParameterNotSpecified : string **)
+
+let jerr_RequiredParameterNotSpecified =
+  String ((Ascii (false, true, false, false, true, true, true, false)),
+    (String ((Ascii (true, false, true, false, false, true, true, false)),
+    (String ((Ascii (true, false, false, false, true, true, true, false)),
+    (String ((Ascii (true, false, true, false, true, true, true, false)),
+    (String ((Ascii (true, false, false, true, false, true, true, false)),
+    (String ((Ascii (false, true, false, false, true, true, true, false)),
+    (String ((Ascii (true, false, true, false, false, true, true, false)),
+    (String ((Ascii (false, false, true, false, false, true, true, false)),
+    (String ((Ascii (false, false, false, false, false, true, false, false)),
+    (String ((Ascii (false, false, false, false, true, true, true, false)),
+    (String ((Ascii (true, false, false, false, false, true, true, false)),
+    (String ((Ascii (false, true, false, false, true, true, true, false)),
+    (String ((Ascii (true, false, false, false, false, true, true, false)),
+    (String ((Ascii (true, false, true, true, false, true, true, false)),
+    (String ((Ascii (true, false, true, false, false, true, true, false)),
+    (String ((Ascii (false, false, true, false, true, true, true, false)),
+    (String ((Ascii (true, false, true, false, false, true, true, false)),
+    (String ((Ascii (false, true, false, false, true, true, true, false)),
+    (String ((Ascii (false, false, false, true, false, true, false, false)),
+    (String ((Ascii (true, true, false, false, true, true, true, false)),
+    (String ((Ascii (true, false, false, true, false, true, false, false)),
+    (String ((Ascii (false, false, false, false, false, true, false, false)),
+    (String ((Ascii (false, true, true, true, false, true, true, false)),
+    (String ((Ascii (true, true, true, true, false, true, true, false)),
+    (String ((Ascii (false, false, true, false, true, true, true, false)),
+    (String ((Ascii (false, false, false, false, false, true, false, false)),
+    (String ((Ascii (true, true, false, false, true, true, true, false)),
+    (String ((Ascii (false, false, false, false, true, true, true, false)),
+    (String ((Ascii (true, false, true, false, false, true, true, false)),
+    (String ((Ascii (true, true, false, false, false, true, true, false)),
+    (String ((Ascii (true, false, false, true, false, true, true, false)),
+    (String ((Ascii (false, true, true, false, false, true, true, false)),
+    (String ((Ascii (true, false, false, true, false, true, true, false)),
+    (String ((Ascii (true, false, true, false, false, true, true, false)),
+    (String ((Ascii (false, false, true, false, false, true, true, false)),
+    EmptyString)))))))))))))))))))))))))))))))))))))))))))))))))))))))))))))))))))))
+
+(** val jerr_ThereIsNoExplicitContextForClosure : string **)
+
+let jerr_ThereIsNoExplicitContextForClosure =
+  String ((Ascii (false, true, true, true, false, true, true, false)),
+    (String ((Ascii (true, true, true, true, false, true, true, false)),
+    (String ((Ascii (false, false, true, false, true, true, true, false)),
+    (String ((Ascii (false, false, false, true, false, true, true, false)),
+    (String ((Ascii (true, false, false, true, false, true, true, false)),
+    (String ((Ascii (false, true, true, true, false, true, true, false)),
+    (String ((Ascii (true, true, true, false, false, true, true, false)),
+    (String ((Ascii (false, false, false, false, false, true, false, false)),
+    (String ((Ascii (false, false, true, false, true, true, true, false)),
+    (String ((Ascii (true, true, true, true, false, true, true, false)),
+    (String ((Ascii (false, false, false, false, false, true, false, false)),
+    (String ((Ascii (true, true, false, false, false, true, true, false)),
+    (String ((Ascii (false, false, true, true, false, true, true, false)),
+    (String ((Ascii (true, true, true, true, false, true, true, false)),
+    (String ((Ascii (true, true, false, false, true, true, true, false)),
+    (String ((Ascii (true, false, true, false, false, true, true, false)),
+    (String ((Ascii (false, false, false, false, false, true, false, false)),
+    (String ((Ascii (true, true, true, false, true, true, true, false)),
+    (String ((Ascii (true, false, false, true, false, true, true, false)),
+    (String ((Ascii (false, false, true, false, true, true, true, false)),
+    (String ((Ascii (false, false, false, true, false, true, true, false)),
+    (String ((Ascii (false, false, false, false, false, true, false, false)),
+    (String ((Ascii (false, false, true, false, true, true, true, false)),
+    (String ((Ascii (false, false, false, true, false, true, true, false)),
+    (String ((Ascii (true, false, false, true, false, true, true, false)),
+    (String ((Ascii (true, true, false, false, true, true, true, false)),
+    (String ((Ascii (false, false, false, false, false, true, false, false)),
+    (String ((Ascii (true, true, false, false, false, true, true, false)),
+    (String ((Ascii (false, false, true, true, false, true, true, false)),
+    (String ((Ascii (true, true, true, true, false, true, true, false)),
+    (String ((Ascii (true, true, false, false, true, true, true, false)),
+    (String ((Ascii (true, false, false, true, false, true, true, false)),
+    (String ((Ascii (false, true, true, true, false, true, true, false)),
+    (String ((Ascii (true, true, true, false, false, true, true, false)),
+    (String ((Ascii (false, false, false, false, false, true, false, false)),
+    (String ((Ascii (false, false, false, false, true, true, true, false)),
+    (String ((Ascii (true, false, false, false, false, true, true, false)),
+    (String ((Ascii (false, true, false, false, true, true, true, false)),
+    (String ((Ascii (true, false, true, false, false, true, true, false)),
+    (String ((Ascii (false, true, true, true, false, true, true, false)),
+    (String ((Ascii (false, false, true, false, true, true, true, false)),
+    (String ((Ascii (false, false, false, true, false, true, true, false)),
+    (String ((Ascii (true, false, true, false, false, true, true, false)),
+    (String ((Ascii (true, true, false, false, true, true, true, false)),
+    (String ((Ascii (true, false, false, true, false, true, true, false)),
+    (String ((Ascii (true, true, false, false, true, true, true, false)),
+    (String ((Ascii (false, false, true, true, false, true, false, false)),
+    (String ((Ascii (false, false, false, false, false, true, false, false)),
+    (String ((Ascii (false, false, true, true, false, true, true, false)),
+    (String ((Ascii (true, false, true, false, false, true, true, false)),
+    (String ((Ascii (true, false, false, false, false, true, true, false)),
+    (String ((Ascii (false, true, false, false, true, true, true, false)),
+    (String ((Ascii (false, true, true, true, false, true, true, false)),
+    (String ((Ascii (false, false, false, false, false, true, false, false)),
+    (String ((Ascii (true, false, true, true, false, true, true, false)),
+    (String ((Ascii (true, true, true, true, false, true, true, false)),
+    (String ((Ascii (false, true, false, false, true, true, true, false)),
+    (String ((Ascii (true, false, true, false, false, true, true, false)),
+    (String ((Ascii (false, false, false, false, false, true, false, false)),
+    (String ((Ascii (true, false, false, false, false, true, true, false)),
+    (String ((Ascii (false, true, false, false, false, true, true, false)),
+    (String ((Ascii (true, true, true, true, false, true, true, false)),
+    (String ((Ascii (true, false, true, false, true, true, true, false)),
+    (String ((Ascii (false, false, true, false, true, true, true, false)),
+    (String ((Ascii (false, false, false, false, false, true, false, false)),
+    (String ((Ascii (false, false, true, false, true, true, true, false)),
+    (String ((Ascii (false, false, false, true, false, true, true, false)),
+    (String ((Ascii (true, false, true, false, false, true, true, false)),
+    (String ((Ascii (false, false, false, false, false, true, false, false)),
+    (String ((Ascii (true, false, true, false, false, true, true, false)),
+    (String ((Ascii (false, false, false, true, true, true, true, false)),
+    (String ((Ascii (false, false, false, false, true, true, true, false)),
+    (String ((Ascii (false, false, true, true, false, true, true, false)),
+    (String ((Ascii (true, false, false, true, false, true, true, false)),
+    (String ((Ascii (true, true, false, false, false, true, true, false)),
+    (String ((Ascii (true, false, false, true, false, true, true, false)),
+    (String ((Ascii (false, false, true, false, true, true, true, false)),
+    (String ((Ascii (false, false, false, false, false, true, false, false)),
+    (String ((Ascii (false, false, true, false, false, true, true, false)),
+    (String ((Ascii (true, false, false, true, false, true, true, false)),
+    (String ((Ascii (false, true, false, false, true, true, true, false)),
+    (String ((Ascii (true, false, true, false, false, true, true, false)),
+    (String ((Ascii (true, true, false, false, false, true, true, false)),
+    (String ((Ascii (true, false, false, true, false, true, true, false)),
+    (String ((Ascii (false, false, true, false, true, true, true, false)),
+    (String ((Ascii (false, true, true, false, true, true, true, false)),
+    (String ((Ascii (true, false, true, false, false, true, true, false)),
+    (String ((Ascii (false, false, false, false, false, true, false, false)),
+    (String ((Ascii (false, true, false, false, false, true, true, false)),
+    (String ((Ascii (true, true, true, true, false, true, true, false)),
+    (String ((Ascii (true, false, true, false, true, true, true, false)),
+    (String ((Ascii (false, true, true, true, false, true, true, false)),
+    (String ((Ascii (false, false, true, false, false, true, true, false)),
+    (String ((Ascii (true, false, false, false, false, true, true, false)),
+    (String ((Ascii (false, true, false, false, true, true, true, false)),
+    (String ((Ascii (true, false, false, true, false, true, true, false)),
+    (String ((Ascii (true, false, true, false, false, true, true, false)),
+    (String ((Ascii (true, true, false, false, true, true, true, false)),
+    (String ((Ascii (false, false, false, false, false, true, false, false)),
+    (String ((Ascii (false, false, false, true, false, true, true, false)),
+    (String ((Ascii (true, false, true, false, false, true, true, false)),
+    (String ((Ascii (false, true, false, false, true, true, true, false)),
+    (String ((Ascii (true, false, true, false, false, true, true, false)),
+    (String ((Ascii (false, true, false, true, true, true, false, false)),
+    (String ((Ascii (false, false, false, false, false, true, false, false)),
+    (String ((Ascii (false, false, false, true, false, true, true, false)),
+    (String ((Ascii (false, false, true, false, true, true, true, false)),
+    (String ((Ascii (false, false, true, false, true, true, true, false)),
+    (String ((Ascii (false, false, false, false, true, true, true, false)),
+    (String ((Ascii (true, true, false, false, true, true, true, false)),
+    (String ((Ascii (false, true, false, true, true, true, false, false)),
+    (String ((Ascii (true, true, true, true, false, true, false, false)),
+    (String ((Ascii (true, true, true, true, false, true, false, false)),
+    (String ((Ascii (false, true, false, true, false, true, true, false)),
+    (String ((Ascii (true, true, false, false, true, true, true, false)),
+    (String ((Ascii (true, false, false, true, false, true, true, false)),
+    (String ((Ascii (true, true, true, false, false, true, true, false)),
+    (String ((Ascii (false, false, false, true, false, true, true, false)),
+    (String ((Ascii (false, false, true, false, true, true, true, false)),
+    (String ((Ascii (false, true, true, true, false, true, false, false)),
+    (String ((Ascii (true, false, false, true, false, true, true, false)),
+    (String ((Ascii (true, true, true, true, false, true, true, false)),
+    (String ((Ascii (true, true, true, true, false, true, false, false)),
+    (String ((Ascii (false, false, true, false, false, true, true, false)),
+    (String ((Ascii (true, true, true, true, false, true, true, false)),
+    (String ((Ascii (true, true, false, false, false, true, true, false)),
+    (String ((Ascii (true, true, false, false, true, true, true, false)),
+    (String ((Ascii (true, true, true, true, false, true, false, false)),
+    (String ((Ascii (false, true, false, true, false, true, true, false)),
+    (String ((Ascii (true, true, false, false, true, true, true, false)),
+    (String ((Ascii (true, false, false, true, false, true, true, false)),
+    (String ((Ascii (true, true, true, false, false, true, true, false)),
+    (String ((Ascii (false, false, false, true, false, true, true, false)),
+    (String ((Ascii (false, false, true, false, true, true, true, false)),
+    (String ((Ascii (true, false, true, true, false, true, false, false)),
+    (String ((Ascii (true, false, false, false, false, true, true, false)),
+    (String ((Ascii (false, false, false, false, true, true, true, false)),
+    (String ((Ascii (true, false, false, true, false, true, true, false)),
+    (String ((Ascii (true, false, true, true, false, true, false, false)),
+    (String ((Ascii (false, false, false, false, true, true, false, false)),
+    (String ((Ascii (true, false, true, true, false, true, false, false)),
+    (String ((Ascii (true, true, false, false, true, true, false, false)),
+    (String ((Ascii (true, true, false, false, false, true, false, false)),
+    (String ((Ascii (false, true, false, false, false, true, true, false)),
+    (String ((Ascii (true, true, true, true, false, true, true, false)),
+    (String ((Ascii (true, false, true, false, true, true, true, false)),
+    (String ((Ascii (false, true, true, true, false, true, true, false)),
+    (String ((Ascii (false, false, true, false, false, true, true, false)),
+    (String ((Ascii (true, false, false, false, false, true, true, false)),
+    (String ((Ascii (false, true, false, false, true, true, true, false)),
+    (String ((Ascii (true, false, false, true, false, true, true, false)),
+    (String ((Ascii (true, false, true, false, false, true, true, false)),
+    (String ((Ascii (true, true, false, false, true, true, true, false)),
+    (String ((Ascii (true, false, true, true, false, true, false, false)),
+    (String ((Ascii (true, true, true, true, false, true, true, false)),
+    (String ((Ascii (false, true, true, false, false, true, true, false)),
+    (String ((Ascii (true, false, true, true, false, true, false, false)),
+    (String ((Ascii (false, false, true, false, true, true, true, false)),
+    (String ((Ascii (false, false, false, true, false, true, true, false)),
+    (String ((Ascii (true, false, true, false, false, true, true, false)),
+    (String ((Ascii (true, false, true, true, false, true, false, false)),
+    (String ((Ascii (false, true, false, false, false, true, true, false)),
+    (String ((Ascii (true, true, true, true, false, true, true, false)),
+    (String ((Ascii (false, false, true, false, false, true, true, false)),
+    (String ((Ascii (true, false, false, true, true, true, true, false)),
+    (String ((Ascii (true, false, true, true, false, true, false, false)),
+    (String ((Ascii (true, true, true, true, false, true, true, false)),
+    (String ((Ascii (false, true, true, false, false, true, true, false)),
+    (String ((Ascii (true, false, true, true, false, true, false, false)),
+    (String ((Ascii (false, false, true, false, true, true, true, false)),
+    (String ((Ascii (false, false, false, true, false, true, true, false)),
+    (String ((Ascii (true, false, true, false, false, true, true, false)),
+    (String ((Ascii (true, false, true, true, false, true, false, false)),
+    (String ((Ascii (false, false, true, false, false, true, true, false)),
+    (String ((Ascii (true, false, false, true, false, true, true, false)),
+    (String ((Ascii (false, true, false, false, true, true, true, false)),
+    (String ((Ascii (true, false, true, false, false, true, true, false)),
+    (String ((Ascii (true, true, false, false, false, true, true, false)),
+    (String ((Ascii (false, false, true, false, true, true, true, false)),
+    (String ((Ascii (true, false, false, true, false, true, true, false)),
+    (String ((Ascii (false, true, true, false, true, true, true, false)),
+    (String ((Ascii (true, false, true, false, false, true, true, false)),
+    EmptyString)))))))))))))))))))))))))))))))))))))))))))))))))))))))))))))))))))))))))))))))))))))))))))))))))))))))))))))))))))))))))))))))))))))))))))))))))))))))))))))))))))))))))))))))))))))))))))))))))))))))))))))))))))))))))))))))))))))))))))))))))))))))))))))))))))))))))))))))))))))))))))))))))))))))))))))))))))))))))))))))))))))))))))))))))))))))))))))))))))))))))))
+
+(** val jerr_UnknownDirective : string **)
+
+let jerr_UnknownDirective =
+  String ((Ascii (true, false, true, false, true, true, true, false)),
+    (String ((Ascii (false, true, true, true, false, true, true, false)),
+    (String ((Ascii (true, true, false, true, false, true, true, false)),
+    (String ((Ascii (false, true, true, true, false, true, true, false)),
+    (String ((Ascii (true, true, true, true, false, true, true, false)),
+    (String ((Ascii (true, true, true, false, true, true, true, false)),
+    (String ((Ascii (false, true, true, true, false, true, true, false)),
+    (String ((Ascii (false, false, false, false, false, true, false, false)),
+    (String ((Ascii (false, false, true, false, false, true, true, false)),
+    (String ((Ascii (true, false, false, true, false, true, true, false)),
+    (String ((Ascii (false, true, false, false, true, true, true, false)),
+    (String ((Ascii (true, false, true, false, false, true, true, false)),
+    (String ((Ascii (true, true, false, false, false, true, true, false)),
+    (String ((Ascii (false, false, true, false, true, true, true, false)),
+    (String ((Ascii (true, false, false, true, false, true, true, false)),
+    (String ((Ascii (false, true, true, false, true, true, true, false)),
+    (String ((Ascii (true, false, true, false, false, true, true, false)),
+    EmptyString)))))))))))))))))))))))))))))))))
+
+type pkey =
+| KPath
+| KSchemaNotation
+| KType
+| KName
+| KFormat
+| KQueryExample
+| KVersion
+| KTitle
+| KProtocolName
+| KMethodName
+| KTagName
+| KOperationId
+
+(** val pkey_eqb : pkey -> pkey -> bool **)
+
+let pkey_eqb a b =
+  match a with
+  | KPath -> (match b with
+              | KPath -> true
+              | _ -> false)
+  | KSchemaNotation -> (match b with
+                        | KSchemaNotation -> true
+                        | _ -> false)
+  | KType -> (match b with
+              | KType -> true
+              | _ -> false)
+  | KName -> (match b with
+              | KName -> true
+              | _ -> false)
+  | KFormat -> (match b with
+                | KFormat -> true
+                | _ -> false)
+  | KQueryExample -> (match b with
+                      | KQueryExample -> true
+                      | _ -> false)
+  | KVersion -> (match b with
+                 | KVersion -> true
+                 | _ -> false)
+  | KTitle -> (match b with
+               | KTitle -> true
+               | _ -> false)
+  | KProtocolName -> (match b with
+                      | KProtocolName -> true
+                      | _ -> false)
+  | KMethodName -> (match b with
+                    | KMethodName -> true
+                    | _ -> false)
+  | KTagName -> (match b with
+                 | KTagName -> true
+                 | _ -> false)
+  | KOperationId -> (match b with
+                     | KOperationId -> true
+                     | _ -> false)
+
+(** val pkey_name : pkey -> string **)
+
+let pkey_name = function
+| KPath ->
+  String ((Ascii (false, false, false, false, true, false, true, false)),
+    (String ((Ascii (true, false, false, false, false, true, true, false)),
+    (String ((Ascii (false, false, true, false, true, true, true, false)),
+    (String ((Ascii (false, false, false, true, false, true, true, false)),
+    EmptyString)))))))
+| KSchemaNotation ->
+  String ((Ascii (true, true, false, false, true, false, true, false)),
+    (String ((Ascii (true, true, false, false, false, true, true, false)),
+    (String ((Ascii (false, false, false, true, false, true, true, false)),
+    (String ((Ascii (true, false, true, false, false, true, true, false)),
+    (String ((Ascii (true, false, true, true, false, true, true, false)),
+    (String ((Ascii (true, false, false, false, false, true, true, false)),
+    (String ((Ascii (false, true, true, true, false, false, true, false)),
+    (String ((Ascii (true, true, true, true, false, true, true, false)),
+    (String ((Ascii (false, false, true, false, true, true, true, false)),
+    (String ((Ascii (true, false, false, false, false, true, true, false)),
+    (String ((Ascii (false, false, true, false, true, true, true, false)),
+    (String ((Ascii (true, false, false, true, false, true, true, false)),
+    (String ((Ascii (true, true, true, true, false, true, true, false)),
+    (String ((Ascii (false, true, true, true, false, true, true, false)),
+    EmptyString)))))))))))))))))))))))))))
+| KType ->
+  String ((Ascii (false, false, true, false, true, false, true, false)),
+    (String ((Ascii (true, false, false, true, true, true, true, false)),
+    (String ((Ascii (false, false, false, false, true, true, true, false)),
+    (String ((Ascii (true, false, true, false, false, true, true, false)),
+    EmptyString)))))))
+| KName ->
+  String ((Ascii (false, true, true, true, false, false, true, false)),
+    (String ((Ascii (true, false, false, false, false, true, true, false)),
+    (String ((Ascii (true, false, true, true, false, true, true, false)),
+    (String ((Ascii (true, false, true, false, false, true, true, false)),
+    EmptyString)))))))
+| KFormat ->
+  String ((Ascii (false, true, true, false, false, false, true, false)),
+    (String ((Ascii (true, true, true, true, false, true, true, false)),
+    (String ((Ascii (false, true, false, false, true, true, true, false)),
+    (String ((Ascii (true, false, true, true, false, true, true, false)),
+    (String ((Ascii (true, false, false, false, false, true, true, false)),
+    (String ((Ascii (false, false, true, false, true, true, true, false)),
+    EmptyString)))))))))))
+| KQueryExample ->
+  String ((Ascii (true, false, false, false, true, false, true, false)),
+    (String ((Ascii (true, false, true, false, true, true, true, false)),
+    (String ((Ascii (true, false, true, false, false, true, true, false)),
+    (String ((Ascii (false, true, false, false, true, true, true, false)),
+    (String ((Ascii (true, false, false, true, true, true, true, false)),
+    (String ((Ascii (true, false, true, false, false, false, true, false)),
+    (String ((Ascii (false, false, false, true, true, true, true, false)),
+    (String ((Ascii (true, false, false, false, false, true, true, false)),
+    (String ((Ascii (true, false, true, true, false, true, true, false)),
+    (String ((Ascii (false, false, false, false, true, true, true, false)),
+    (String ((Ascii (false, false, true, true, false, true, true, false)),
+    (String ((Ascii (true, false, true, false, false, true, true, false)),
+    EmptyString)))))))))))))))))))))))
+| KVersion ->
+  String ((Ascii (false, true, true, false, true, false, true, false)),
+    (String ((Ascii (true, false, true, false, false, true, true, false)),
+    (String ((Ascii (false, true, false, false, true, true, true, false)),
+    (String ((Ascii (true, true, false, false, true, true, true, false)),
+    (String ((Ascii (true, false, false, true, false, true, true, false)),
+    (String ((Ascii (true, true, true, true, false, true, true, false)),
+    (String ((Ascii (false, true, true, true, false, true, true, false)),
+    EmptyString)))))))))))))
+| KTitle ->
+  String ((Ascii (false, false, true, false, true, false, true, false)),
+    (String ((Ascii (true, false, false, true, false, true, true, false)),
+    (String ((Ascii (false, false, true, false, true, true, true, false)),
+    (String ((Ascii (false, false, true, true, false, true, true, false)),
+    (String ((Ascii (true, false, true, false, false, true, true, false)),
+    EmptyString)))))))))
+| KProtocolName ->
+  String ((Ascii (false, false, false, false, true, false, true, false)),
+    (String ((Ascii (false, true, false, false, true, true, true, false)),
+    (String ((Ascii (true, true, true, true, false, true, true, false)),
+    (String ((Ascii (false, false, true, false, true, true, true, false)),
+    (String ((Ascii (true, true, true, true, false, true, true, false)),
+    (String ((Ascii (true, true, false, false, false, true, true, false)),
+    (String ((Ascii (true, true, true, true, false, true, true, false)),
+    (String ((Ascii (false, false, true, true, false, true, true, false)),
+    (String ((Ascii (false, true, true, true, false, false, true, false)),
+    (String ((Ascii (true, false, false, false, false, true, true, false)),
+    (String ((Ascii (true, false, true, true, false, true, true, false)),
+    (String ((Ascii (true, false, true, false, false, true, true, false)),
+    EmptyString)))))))))))))))))))))))
+| KMethodName ->
+  String ((Ascii (true, false, true, true, false, false, true, false)),
+    (String ((Ascii (true, false, true, false, false, true, true, false)),
+    (String ((Ascii (false, false, true, false, true, true, true, false)),
+    (String ((Ascii (false, false, false, true, false, true, true, false)),
+    (String ((Ascii (true, true, true, true, false, true, true, false)),
+    (String ((Ascii (false, false, true, false, false, true, true, false)),
+    (String ((Ascii (false, true, true, true, false, false, true, false)),
+    (String ((Ascii (true, false, false, false, false, true, true, false)),
+    (String ((Ascii (true, false, true, true, false, true, true, false)),
+    (String ((Ascii (true, false, true, false, false, true, true, false)),
+    EmptyString)))))))))))))))))))
+| KTagName ->
+  String ((Ascii (false, false, true, false, true, false, true, false)),
+    (String ((Ascii (true, false, false, false, false, true, true, false)),
+    (String ((Ascii (true, true, true, false, false, true, true, false)),
+    (String ((Ascii (false, true, true, true, false, false, true, false)),
+    (String ((Ascii (true, false, false, false, false, true, true, false)),
+    (String ((Ascii (true, false, true, true, false, true, true, false)),
+    (String ((Ascii (true, false, true, false, false, true, true, false)),
+    EmptyString)))))))))))))
+| KOperationId ->
+  String ((Ascii (true, true, true, true, false, false, true, false)),
+    (String ((Ascii (false, false, false, false, true, true, true, false)),
+    (String ((Ascii (true, false, true, false, false, true, true, false)),
+    (String ((Ascii (false, true, false, false, true, true, true, false)),
+    (String ((Ascii (true, false, false, false, false, true, true, false)),
+    (String ((Ascii (false, false, true, false, true, true, true, false)),
+    (String ((Ascii (true, false, false, true, false, true, true, false)),
+    (String ((Ascii (true, true, true, true, false, true, true, false)),
+    (String ((Ascii (false, true, true, true, false, true, true, false)),
+    (String ((Ascii (true, false, false, true, false, false, true, false)),
+    (String ((Ascii (false, false, true, false, false, true, true, false)),
+    EmptyString)))))))))))))))))))))
+
+type coords = { co_file : n; co_begin : z; co_end : z }
+
+type trace = (n * z) list
+
+type dir = { d_kind : n; d_keyword : bytes; d_kw : coords;
+             d_named : (pkey * bytes) list; d_unnamed : bytes list;
+             d_annot : bytes; d_body : coords option; d_explicit : bool;
+             d_trace : trace; d_children : dir list }
+
+(** val with_children : dir -> dir list -> dir **)
+
+let with_children d cs =
+  { d_kind = d.d_kind; d_keyword = d.d_keyword; d_kw = d.d_kw; d_named =
+    d.d_named; d_unnamed = d.d_unnamed; d_annot = d.d_annot; d_body =
+    d.d_body; d_explicit = d.d_explicit; d_trace = d.d_trace; d_children =
+    cs }
+
+(** val named : dir -> pkey -> bytes **)
+
+let named d k =
+  match find (fun p -> pkey_eqb (fst p) k) d.d_named with
+  | Some p -> let (_, v) = p in v
+  | None -> []
+
+(** val has_named : dir -> pkey -> bool **)
+
+let has_named d k =
+  existsb (fun p -> pkey_eqb (fst p) k) d.d_named
+
+type cmsg = { m_fmt : string; m_args : bytes list; m_suffix : (n * z) list }
+
+(** val mkMsg : string -> bytes list -> cmsg **)
+
+let mkMsg f a =
+  { m_fmt = f; m_args = a; m_suffix = [] }
+
+type cerr = { e_msg : cmsg; e_file : n; e_index : z; e_trace : trace }
+
+type cpanic =
+| CPNilCurrentDirective
+| CPEmptyIncludeName
+| CPLexemeValue
+| CPScanner of panic
+| CPOther of string
+
+type 'a cres =
+| COk of 'a
+| CErr of cerr
+| CPanic of cpanic
+| CFuel
+
+(** val str : string -> bytes **)
+
+let str =
+  bytes_of_string
+
+(** val msg1 : string -> cmsg **)
+
+let msg1 s =
+  mkMsg (String ((Ascii (true, false, true, false, false, true, false,
+    false)), (String ((Ascii (true, true, false, false, true, true, true,
+    false)), EmptyString)))) ((str s) :: [])
+
+(** val is_trim_space : n -> bool **)
+
+let is_trim_space c =
+  (||)
+    ((&&) (N.leb (Npos (XI (XO (XO XH)))) c)
+      (N.leb c (Npos (XI (XO (XI XH))))))
+    (N.eqb c (Npos (XO (XO (XO (XO (XO XH)))))))
+
+(** val is_re_space : n -> bool **)
+
+let is_re_space c =
+  (||)
+    ((||)
+      ((||)
+        ((||) (N.eqb c (Npos (XI (XO (XO XH)))))
+          (N.eqb c (Npos (XO (XI (XO XH))))))
+        (N.eqb c (Npos (XO (XO (XI XH))))))
+      (N.eqb c (Npos (XI (XO (XI XH))))))
+    (N.eqb c (Npos (XO (XO (XO (XO (XO XH)))))))
+
+(** val drop_while : (n -> bool) -> bytes -> bytes **)
+
+let rec drop_while f l = match l with
+| [] -> []
+| c :: r -> if f c then drop_while f r else l
+
+(** val trim_space : bytes -> bytes **)
+
+let trim_space l =
+  rev (drop_while is_trim_space (rev (drop_while is_trim_space l)))
+
+(** val collapse_spaces : bytes -> bool -> bytes **)
+
+let rec collapse_spaces l in_run =
+  match l with
+  | [] -> []
+  | c :: r ->
+    if is_re_space c
+    then if in_run
+         then collapse_spaces r true
+         else (Npos (XO (XO (XO (XO (XO XH)))))) :: (collapse_spaces r true)
+    else c :: (collapse_spaces r false)
+
+(** val annotation : bytes -> bytes **)
+
+let annotation b =
+  collapse_spaces (trim_space b) false
+
+(** val is_schema_notation : bytes -> bool **)
+
+let is_schema_notation s =
+  (||)
+    ((||)
+      ((||)
+        ((||)
+          (beq s
+            (str (String ((Ascii (false, true, false, true, false, true,
+              true, false)), (String ((Ascii (true, true, false, false, true,
+              true, true, false)), (String ((Ascii (true, false, false, true,
+              false, true, true, false)), (String ((Ascii (true, true, true,
+              false, false, true, true, false)), (String ((Ascii (false,
+              false, false, true, false, true, true, false)), (String ((Ascii
+              (false, false, true, false, true, true, true, false)),
+              EmptyString)))))))))))))) (beq s []))
+        (beq s
+          (str (String ((Ascii (false, true, false, false, true, true, true,
+            false)), (String ((Ascii (true, false, true, false, false, true,
+            true, false)), (String ((Ascii (true, true, true, false, false,
+            true, true, false)), (String ((Ascii (true, false, true, false,
+            false, true, true, false)), (String ((Ascii (false, false, false,
+            true, true, true, true, false)), EmptyString)))))))))))))
+      (beq s
+        (str (String ((Ascii (true, false, false, false, false, true, true,
+          false)), (String ((Ascii (false, true, true, true, false, true,
+          true, false)), (String ((Ascii (true, false, false, true, true,
+          true, true, false)), EmptyString)))))))))
+    (beq s
+      (str (String ((Ascii (true, false, true, false, false, true, true,
+        false)), (String ((Ascii (true, false, true, true, false, true, true,
+        false)), (String ((Ascii (false, false, false, false, true, true,
+        true, false)), (String ((Ascii (false, false, true, false, true,
+        true, true, false)), (String ((Ascii (true, false, false, true, true,
+        true, true, false)), EmptyString))))))))))))
+
+(** val is_array_of_types : bytes -> bool **)
+
+let is_array_of_types b = match b with
+| [] -> false
+| n0 :: rest ->
+  (match n0 with
+   | N0 -> false
+   | Npos p ->
+     (match p with
+      | XI p0 ->
+        (match p0 with
+         | XI p1 ->
+           (match p1 with
+            | XO p2 ->
+              (match p2 with
+               | XI p3 ->
+                 (match p3 with
+                  | XI p4 ->
+                    (match p4 with
+                     | XO p5 ->
+                       (match p5 with
+                        | XH ->
+                          (&&) (Nat.leb (S (S (S (S O)))) (length b))
+                            (match rev rest with
+                             | [] -> false
+                             | n1 :: _ ->
+                               (match n1 with
+                                | N0 -> false
+                                | Npos p6 ->
+                                  (match p6 with
+                                   | XI p7 ->
+                                     (match p7 with
+                                      | XO p8 ->
+                                        (match p8 with
+                                         | XI p9 ->
+                                           (match p9 with
+                                            | XI p10 ->
+                                              (match p10 with
+                                               | XI p11 ->
+                                                 (match p11 with
+                                                  | XO p12 ->
+                                                    (match p12 with
+                                                     | XH ->
+                                                       is_user_type_name
+                                                         (removelast rest)
+                                                     | _ -> false)
+                                                  | _ -> false)
+                                               | _ -> false)
+                                            | _ -> false)
+                                         | _ -> false)
+                                      | _ -> false)
+                                   | _ -> false)))
+                        | _ -> false)
+                     | _ -> false)
+                  | _ -> false)
+               | _ -> false)
+            | _ -> false)
+         | _ -> false)
+      | _ -> false))
+
+type append_res =
+| ASet of pkey * bytes
+| AUnnamed of bytes
+| ABad of bytes
+
+(** val kind_in : n -> n list -> bool **)
+
+let kind_in k l =
+  existsb (N.eqb k) l
+
+(** val append_parameter_kind : n -> bytes -> append_res **)
+
+let append_parameter_kind kind raw =
+  let b = unquote raw in
+  if kind_in kind
+       (dir_URL :: (dir_Get :: (dir_Post :: (dir_Put :: (dir_Patch :: (dir_Delete :: []))))))
+  then ASet (KPath, b)
+  else if kind_in kind
+            (dir_Request :: (dir_HTTPResponseCode :: (dir_Body :: [])))
+       then if is_schema_notation b
+            then ASet (KSchemaNotation, b)
+            else if is_array_of_types b
+                 then ASet (KType, b)
+                 else if is_user_type_name b then ASet (KType, b) else ABad b
+       else if N.eqb kind dir_Type
+            then if is_schema_notation b
+                 then ASet (KSchemaNotation, b)
+                 else if is_array_of_types b
+                      then ASet (KName, b)
+                      else if is_user_type_name b
+                           then ASet (KName, b)
+                           else ABad b
+            else if N.eqb kind dir_Query
+                 then if (||)
+                           (beq b
+                             (str (String ((Ascii (false, false, false, true,
+                               false, true, true, false)), (String ((Ascii
+                               (false, false, true, false, true, true, true,
+                               false)), (String ((Ascii (true, false, true,
+                               true, false, true, true, false)), (String
+                               ((Ascii (false, false, true, true, false,
+                               true, true, false)), (String ((Ascii (false,
+                               true, true, false, false, false, true,
+                               false)), (String ((Ascii (true, true, true,
+                               true, false, true, true, false)), (String
+                               ((Ascii (false, true, false, false, true,
+                               true, true, false)), (String ((Ascii (true,
+                               false, true, true, false, true, true, false)),
+                               (String ((Ascii (true, false, true, false,
+                               false, false, true, false)), (String ((Ascii
+                               (false, true, true, true, false, true, true,
+                               false)), (String ((Ascii (true, true, false,
+                               false, false, true, true, false)), (String
+                               ((Ascii (true, true, true, true, false, true,
+                               true, false)), (String ((Ascii (false, false,
+                               true, false, false, true, true, false)),
+                               (String ((Ascii (true, false, true, false,
+                               false, true, true, false)), (String ((Ascii
+                               (false, false, true, false, false, true, true,
+                               false)),
+                               EmptyString))))))))))))))))))))))))))))))))
+                           (beq b
+                             (str (String ((Ascii (false, true, true, true,
+                               false, true, true, false)), (String ((Ascii
+                               (true, true, true, true, false, true, true,
+                               false)), (String ((Ascii (false, true, true,
+                               false, false, false, true, false)), (String
+                               ((Ascii (true, true, true, true, false, true,
+                               true, false)), (String ((Ascii (false, true,
+                               false, false, true, true, true, false)),
+                               (String ((Ascii (true, false, true, true,
+                               false, true, true, false)), (String ((Ascii
+                               (true, false, false, false, false, true, true,
+                               false)), (String ((Ascii (false, false, true,
+                               false, true, true, true, false)),
+                               EmptyString))))))))))))))))))
+                      then ASet (KFormat, b)
+                      else ASet (KQueryExample, b)
+                 else if kind_in kind (dir_Jsight :: (dir_Version :: []))
+                      then ASet (KVersion, b)
+                      else if N.eqb kind dir_Title
+                           then ASet (KTitle, b)
+                           else if N.eqb kind dir_BaseURL
+                                then ASet (KPath, b)
+                                else if kind_in kind
+                                          (dir_Server :: (dir_Enum :: (dir_Macro :: (dir_Paste :: []))))
+                                     then if is_user_type_name b
+                                          then ASet (KName, b)
+                                          else ABad b
+                                     else if N.eqb kind dir_Protocol
+                                          then ASet (KProtocolName, b)
+                                          else if N.eqb kind dir_Method
+                                               then ASet (KMethodName, b)
+                                               else if N.eqb kind dir_TAG
+                                                    then if is_user_type_name
+                                                              b
+                                                         then ASet (KTagName,
+                                                                b)
+                                                         else ABad b
+                                                    else if N.eqb kind
+                                                              dir_Tags
+                                                         then if is_user_type_name
+                                                                   b
+                                                              then AUnnamed b
+                                                              else ABad b
+                                                         else if N.eqb kind
+                                                                   dir_OperationID
+                                                              then ASet
+                                                                    (KOperationId,
+                                                                    b)
+                                                              else ABad b
+
+(** val append_parameter : dir -> bytes -> (dir, cmsg) sum **)
+
+let append_parameter d raw =
+  match append_parameter_kind d.d_kind raw with
+  | ASet (k, v) ->
+    if has_named d k
+    then Inr
+           (mkMsg jerr_ParametersIsAlreadyDefined ((str (pkey_name k)) :: []))
+    else Inl { d_kind = d.d_kind; d_keyword = d.d_keyword; d_kw = d.d_kw;
+           d_named = (app d.d_named ((k, v) :: [])); d_unnamed = d.d_unnamed;
+           d_annot = d.d_annot; d_body = d.d_body; d_explicit = d.d_explicit;
+           d_trace = d.d_trace; d_children = d.d_children }
+  | AUnnamed v ->
+    Inl { d_kind = d.d_kind; d_keyword = d.d_keyword; d_kw = d.d_kw;
+      d_named = d.d_named; d_unnamed = (app d.d_unnamed (v :: [])); d_annot =
+      d.d_annot; d_body = d.d_body; d_explicit = d.d_explicit; d_trace =
+      d.d_trace; d_children = d.d_children }
+  | ABad v ->
+    Inr
+      (mkMsg (String ((Ascii (true, false, true, false, false, true, false,
+        false)), (String ((Ascii (true, true, false, false, true, true, true,
+        false)), (String ((Ascii (false, false, false, false, false, true,
+        false, false)), (String ((Ascii (true, false, true, false, false,
+        true, false, false)), (String ((Ascii (true, false, false, false,
+        true, true, true, false)), EmptyString))))))))))
+        ((str jerr_IncorrectParameter) :: (v :: [])))
+
+type path = nat list
+
+(** val node_at : dir list -> path -> dir option **)
+
+let rec node_at f = function
+| [] -> None
+| i :: rest ->
+  (match nth_error f i with
+   | Some d ->
+     (match rest with
+      | [] -> Some d
+      | _ :: _ -> node_at d.d_children rest)
+   | None -> None)
+
+(** val update_nth : 'a1 list -> nat -> ('a1 -> 'a1) -> 'a1 list **)
+
+let rec update_nth l i f =
+  match l with
+  | [] -> []
+  | x :: r -> (match i with
+               | O -> (f x) :: r
+               | S j -> x :: (update_nth r j f))
+
+(** val append_child : dir list -> path -> dir -> dir list * nat **)
+
+let rec append_child f p c =
+  match p with
+  | [] -> ((app f (c :: [])), (length f))
+  | i :: rest ->
+    (match nth_error f i with
+     | Some d ->
+       let (cs, idx) = append_child d.d_children rest c in
+       ((update_nth f i (fun _ -> with_children d cs)), idx)
+     | None -> (f, O))
+
+(** val parent_path : path -> path option **)
+
+let parent_path p =
+  match removelast p with
+  | [] -> None
+  | n0 :: l -> Some (n0 :: l)
+
+(** val dir_error : dir -> cmsg -> cerr **)
+
+let dir_error d m =
+  { e_msg = m; e_file = d.d_kw.co_file; e_index = d.d_kw.co_begin; e_trace =
+    d.d_trace }
+
+(** val kind_name : n -> bytes **)
+
+let kind_name k =
+  match nth_error keyword_bytes (N.to_nat k) with
+  | Some b -> b
+  | None -> []
+
+(** val incorrect_context : dir -> cerr **)
+
+let incorrect_context d =
+  dir_error d
+    (mkMsg (String ((Ascii (true, false, true, false, false, true, false,
+      false)), (String ((Ascii (true, true, false, false, true, true, true,
+      false)), (String ((Ascii (false, false, false, false, false, true,
+      false, false)), (String ((Ascii (true, false, true, false, false, true,
+      false, false)), (String ((Ascii (true, false, false, false, true, true,
+      true, false)), EmptyString))))))))))
+      ((str jerr_IncorrectDirectiveContext) :: ((kind_name d.d_kind) :: [])))
+
+(** val incorrect_context_path : dir -> cerr **)
+
+let incorrect_context_path d =
+  dir_error d
+    (mkMsg (String ((Ascii (true, false, true, false, false, true, false,
+      false)), (String ((Ascii (true, true, false, false, true, true, true,
+      false)), (String ((Ascii (false, false, false, false, false, true,
+      false, false)), (String ((Ascii (true, false, true, false, false, true,
+      false, false)), (String ((Ascii (true, false, false, false, true, true,
+      true, false)), (String ((Ascii (false, false, false, false, false,
+      true, false, false)), (String ((Ascii (true, true, true, false, true,
+      true, true, false)), (String ((Ascii (true, false, false, true, false,
+      true, true, false)), (String ((Ascii (false, false, true, false, true,
+      true, true, false)), (String ((Ascii (false, false, false, true, false,
+      true, true, false)), (String ((Ascii (false, false, false, false,
+      false, true, false, false)), (String ((Ascii (false, false, true,
+      false, true, true, true, false)), (String ((Ascii (false, false, false,
+      true, false, true, true, false)), (String ((Ascii (true, false, true,
+      false, false, true, true, false)), (String ((Ascii (false, false,
+      false, false, false, true, false, false)), (String ((Ascii (false,
+      true, false, false, false, true, false, false)), (String ((Ascii
+      (false, false, false, false, true, false, true, false)), (String
+      ((Ascii (true, false, false, false, false, true, true, false)), (String
+      ((Ascii (false, false, true, false, true, true, true, false)), (String
+      ((Ascii (false, false, false, true, false, true, true, false)), (String
+      ((Ascii (false, true, false, false, false, true, false, false)),
+      (String ((Ascii (false, false, false, false, false, true, false,
+      false)), (String ((Ascii (false, false, false, false, true, true, true,
+      false)), (String ((Ascii (true, false, false, false, false, true, true,
+      false)), (String ((Ascii (false, true, false, false, true, true, true,
+      false)), (String ((Ascii (true, false, false, false, false, true, true,
+      false)), (String ((Ascii (true, false, true, true, false, true, true,
+      false)), (String ((Ascii (true, false, true, false, false, true, true,
+      false)), (String ((Ascii (false, false, true, false, true, true, true,
+      false)), (String ((Ascii (true, false, true, false, false, true, true,
+      false)), (String ((Ascii (false, true, false, false, true, true, true,
+      false)),
+      EmptyString))))))))))))))))))))))))))))))))))))))))))))))))))))))))))))))
+      ((str jerr_IncorrectDirectiveContext) :: ((kind_name d.d_kind) :: [])))
+
+(** val attach :
+    nat -> dir list -> path option -> dir -> (dir list * path option) cres **)
+
+let rec attach fuel f ctx d =
+  match fuel with
+  | O -> CFuel
+  | S fuel' ->
+    (match ctx with
+     | Some p ->
+       (match node_at f p with
+        | Some cur ->
+          if is_allowed_in cur.d_kind d.d_kind
+          then if (&&)
+                    ((&&) (is_http_request_method d.d_kind)
+                      (negb (beq (named d KPath) [])))
+                    (N.eqb cur.d_kind dir_URL)
+               then if cur.d_explicit
+                    then CErr (incorrect_context_path d)
+                    else COk ((app f (d :: [])), (Some ((length f) :: [])))
+               else let (f', idx) = append_child f p d in
+                    COk (f', (Some (app p (idx :: []))))
+          else if cur.d_explicit
+               then CErr (incorrect_context d)
+               else attach fuel' f (parent_path p) d
+        | None ->
+          CPanic (CPOther (String ((Ascii (true, true, false, false, false,
+            true, true, false)), (String ((Ascii (true, true, true, true,
+            false, true, true, false)), (String ((Ascii (false, true, true,
+            true, false, true, true, false)), (String ((Ascii (false, false,
+            true, false, true, true, true, false)), (String ((Ascii (true,
+            false, true, false, false, true, true, false)), (String ((Ascii
+            (false, false, false, true, true, true, true, false)), (String
+            ((Ascii (false, false, true, false, true, true, true, false)),
+            (String ((Ascii (false, false, false, false, false, true, false,
+            false)), (String ((Ascii (false, false, false, false, true, true,
+            true, false)), (String ((Ascii (true, false, false, false, false,
+            true, true, false)), (String ((Ascii (false, false, true, false,
+            true, true, true, false)), (String ((Ascii (false, false, false,
+            true, false, true, true, false)), (String ((Ascii (false, false,
+            false, false, false, true, false, false)), (String ((Ascii
+            (false, false, true, false, false, true, true, false)), (String
+            ((Ascii (true, true, true, true, false, true, true, false)),
+            (String ((Ascii (true, false, true, false, false, true, true,
+            false)), (String ((Ascii (true, true, false, false, true, true,
+            true, false)), (String ((Ascii (false, false, false, false,
+            false, true, false, false)), (String ((Ascii (false, true, true,
+            true, false, true, true, false)), (String ((Ascii (true, true,
+            true, true, false, true, true, false)), (String ((Ascii (false,
+            false, true, false, true, true, true, false)), (String ((Ascii
+            (false, false, false, false, false, true, false, false)), (String
+            ((Ascii (true, false, true, false, false, true, true, false)),
+            (String ((Ascii (false, false, false, true, true, true, true,
+            false)), (String ((Ascii (true, false, false, true, false, true,
+            true, false)), (String ((Ascii (true, true, false, false, true,
+            true, true, false)), (String ((Ascii (false, false, true, false,
+            true, true, true, false)),
+            EmptyString))))))))))))))))))))))))))))))))))))))))))))))))))))))))
+     | None ->
+       if is_allowed_for_root d.d_kind
+       then COk ((app f (d :: [])), (Some ((length f) :: [])))
+       else CErr (incorrect_context d))
+
+(** val attach_fuel : path option -> nat **)
+
+let attach_fuel = function
+| Some p -> S (S (length p))
+| None -> S (S O)
+
+(** val close_explicit :
+    nat -> dir list -> path option -> path option option **)
+
+let rec close_explicit fuel f ctx =
+  match fuel with
+  | O -> None
+  | S fuel' ->
+    (match ctx with
+     | Some p ->
+       (match node_at f p with
+        | Some cur ->
+          if cur.d_explicit
+          then Some (parent_path p)
+          else close_explicit fuel' f (parent_path p)
+        | None -> None)
+     | None -> None)
+
+(** val has_unclosed : nat -> dir list -> path option -> bool **)
+
+let rec has_unclosed fuel f ctx =
+  match fuel with
+  | O -> false
+  | S fuel' ->
+    (match ctx with
+     | Some p ->
+       (match node_at f p with
+        | Some cur ->
+          (||) cur.d_explicit (has_unclosed fuel' f (parent_path p))
+        | None -> false)
+     | None -> false)
+
+type fsentry =
+| FFile of bytes
+| FDir
+
+type fsmap = (bytes * fsentry) list
+
+(** val fs_lookup : fsmap -> bytes -> fsentry option **)
+
+let rec fs_lookup fs name =
+  match fs with
+  | [] -> None
+  | p :: rest ->
+    let (n0, e) = p in if beq n0 name then Some e else fs_lookup rest name
+
+(** val split_on : n -> bytes -> bytes -> bytes list **)
+
+let rec split_on sep s cur =
+  match s with
+  | [] -> (rev cur) :: []
+  | c :: r ->
+    if N.eqb c sep
+    then (rev cur) :: (split_on sep r [])
+    else split_on sep r (c :: cur)
+
+(** val segments : bytes -> bytes list **)
+
+let segments s =
+  split_on (Npos (XI (XI (XI (XI (XO XH)))))) s []
+
+(** val dot : n list **)
+
+let dot =
+  (Npos (XO (XI (XI (XI (XO XH)))))) :: []
+
+(** val dotdot : n list **)
+
+let dotdot =
+  (Npos (XO (XI (XI (XI (XO XH)))))) :: ((Npos (XO (XI (XI (XI (XO
+    XH)))))) :: [])
+
+(** val clean_segs : bytes list -> bytes list -> bytes list **)
+
+let rec clean_segs segs acc =
+  match segs with
+  | [] -> rev acc
+  | s :: rest ->
+    if (||) (beq s []) (beq s dot)
+    then clean_segs rest acc
+    else if beq s dotdot
+         then (match acc with
+               | [] -> clean_segs rest (dotdot :: [])
+               | a :: acc' ->
+                 if beq a dotdot
+                 then clean_segs rest (dotdot :: acc)
+                 else clean_segs rest acc')
+         else clean_segs rest (s :: acc)
+
+(** val join_segs : bytes list -> bytes **)
+
+let rec join_segs = function
+| [] -> []
+| s :: rest ->
+  (match rest with
+   | [] -> s
+   | _ :: _ -> app s ((Npos (XI (XI (XI (XI (XO XH)))))) :: (join_segs rest)))
+
+(** val join_dir : bytes -> bytes -> bytes **)
+
+let join_dir includer name =
+  let dirsegs = removelast (segments includer) in
+  (match clean_segs (app dirsegs (segments name)) [] with
+   | [] -> dot
+   | b :: l -> join_segs (b :: l))
+
+(** val eval_icond : icond -> bytes -> bool option **)
+
+let rec eval_icond c s =
+  match c with
+  | IFirstByte b -> (match s with
+                     | [] -> None
+                     | x :: _ -> Some (N.eqb x b))
+  | IEquals w -> Some (beq s w)
+  | IContains w -> Some (contains w s)
+  | IHasPrefix w -> Some (is_prefix w s)
+  | IHasSuffix w -> Some (is_suffix w s)
+  | ISegmentIn ws ->
+    Some (existsb (fun seg -> existsb (beq seg) ws) (segments s))
+  | IOr (a, b) ->
+    (match eval_icond a s with
+     | Some b0 -> if b0 then Some true else eval_icond b s
+     | None -> None)
+  | IAnd (a, b) ->
+    (match eval_icond a s with
+     | Some b0 -> if b0 then eval_icond b s else Some false
+     | None -> None)
+
+(** val validate_include :
+    (icond * string) list -> bytes -> string option option **)
+
+let rec validate_include checks s =
+  match checks with
+  | [] -> Some None
+  | p :: rest ->
+    let (c, m) = p in
+    (match eval_icond c s with
+     | Some b -> if b then Some (Some m) else validate_include rest s
+     | None -> None)
+
+(** val newline_symbol_aux : bytes -> n option -> n **)
+
+let rec newline_symbol_aux s found =
+  match s with
+  | [] -> (match found with
+           | Some c -> c
+           | None -> Npos (XO (XI (XO XH))))
+  | c :: r ->
+    if (||) (N.eqb c (Npos (XO (XI (XO XH)))))
+         (N.eqb c (Npos (XI (XO (XI XH)))))
+    then newline_symbol_aux r (Some c)
+    else (match found with
+          | Some x -> x
+          | None -> newline_symbol_aux r None)
+
+(** val newline_symbol : bytes -> n **)
+
+let newline_symbol s =
+  newline_symbol_aux s None
+
+(** val count_lines : n -> bytes -> z -> z -> z * z **)
+
+let rec count_lines nl s line col =
+  match s with
+  | [] -> (line, col)
+  | c :: r ->
+    if N.eqb c nl
+    then count_lines nl r (Z.add line (Zpos XH)) Z0
+    else count_lines nl r line (Z.add col (Zpos XH))
+
+(** val line_and_column : bytes -> z -> z * z **)
+
+let line_and_column content index =
+  if (||) (Z.leb (Z.of_nat (length content)) index) (Z.ltb index Z0)
+  then (Z0, Z0)
+  else let (l, c) =
+         count_lines (newline_symbol content)
+           (firstn (Z.to_nat index) content) Z0 Z0
+       in
+       ((Z.add l (Zpos XH)), (Z.add c (Zpos XH)))
+
+type sitem = { si_file : n; si_conf : conf; si_at : z }
+
+type cstate = { cs_forest : dir list; cs_ctx : path option;
+                cs_cur : dir option; cs_file : n; cs_conf : conf;
+                cs_stack : sitem list; cs_tracers : (bytes * trace) list;
+                cs_files : (bytes * bytes) list;
+                cs_log : (string * bytes) list }
+
+(** val file_name : cstate -> n -> bytes **)
+
+let file_name st id =
+  match nth_error st.cs_files (N.to_nat id) with
+  | Some p -> let (n0, _) = p in n0
+  | None -> []
+
+(** val file_content : cstate -> n -> bytes **)
+
+let file_content st id =
+  match nth_error st.cs_files (N.to_nat id) with
+  | Some p -> let (_, c) = p in c
+  | None -> []
+
+(** val live_trace : cstate -> trace **)
+
+let live_trace st =
+  map (fun it -> (it.si_file, it.si_at)) st.cs_stack
+
+(** val with_live_trace : cstate -> cerr -> cerr **)
+
+let with_live_trace st e =
+  match e.e_trace with
+  | [] ->
+    { e_msg = e.e_msg; e_file = e.e_file; e_index = e.e_index; e_trace =
+      (live_trace st) }
+  | _ :: _ -> e
+
+(** val scan_next :
+    (string * stmt) list -> cond -> cond -> (bytes -> okind -> z -> olen_res)
+    -> cstate -> (lexeme option * conf) res **)
+
+let scan_next prog nl_cond ws_cond olen st =
+  next prog nl_cond ws_cond (file_content st st.cs_file)
+    (olen (file_name st st.cs_file)) st.cs_conf
+
+(** val set_conf : cstate -> conf -> cstate **)
+
+let set_conf st cf =
+  { cs_forest = st.cs_forest; cs_ctx = st.cs_ctx; cs_cur = st.cs_cur;
+    cs_file = st.cs_file; cs_conf = cf; cs_stack = st.cs_stack; cs_tracers =
+    st.cs_tracers; cs_files = st.cs_files; cs_log = st.cs_log }
+
+(** val set_cur_dir : cstate -> dir option -> cstate **)
+
+let set_cur_dir st d =
+  { cs_forest = st.cs_forest; cs_ctx = st.cs_ctx; cs_cur = d; cs_file =
+    st.cs_file; cs_conf = st.cs_conf; cs_stack = st.cs_stack; cs_tracers =
+    st.cs_tracers; cs_files = st.cs_files; cs_log = st.cs_log }
+
+(** val set_tree : cstate -> dir list -> path option -> cstate **)
+
+let set_tree st f ctx =
+  { cs_forest = f; cs_ctx = ctx; cs_cur = st.cs_cur; cs_file = st.cs_file;
+    cs_conf = st.cs_conf; cs_stack = st.cs_stack; cs_tracers = st.cs_tracers;
+    cs_files = st.cs_files; cs_log = st.cs_log }
+
+(** val add_log : cstate -> string -> bytes -> cstate **)
+
+let add_log st what p =
+  { cs_forest = st.cs_forest; cs_ctx = st.cs_ctx; cs_cur = st.cs_cur;
+    cs_file = st.cs_file; cs_conf = st.cs_conf; cs_stack = st.cs_stack;
+    cs_tracers = st.cs_tracers; cs_files = st.cs_files; cs_log =
+    (app st.cs_log ((what, p) :: [])) }
+
+(** val core_error : cstate -> cmsg -> z -> cerr **)
+
+let core_error st m i =
+  { e_msg = m; e_file = st.cs_file; e_index = i; e_trace = [] }
+
+(** val scan_error : cstate -> serr -> cerr **)
+
+let scan_error st = function
+| EUnexpected (w, x, i, eof) ->
+  { e_msg =
+    (mkMsg
+      (if eof
+       then String ((Ascii (true, false, true, false, true, false, true,
+              false)), (String ((Ascii (true, false, true, false, false,
+              false, true, false)), (String ((Ascii (true, true, true, true,
+              false, false, true, false)), (String ((Ascii (false, true,
+              true, false, false, false, true, false)), EmptyString)))))))
+       else String ((Ascii (true, false, true, false, true, false, true,
+              false)), (String ((Ascii (true, true, false, false, false,
+              false, true, false)), (String ((Ascii (false, false, false,
+              true, false, false, true, false)), (String ((Ascii (true,
+              false, false, false, false, false, true, false)), (String
+              ((Ascii (false, true, false, false, true, false, true, false)),
+              EmptyString)))))))))) ((str w) :: ((str x) :: []))); e_file =
+    st.cs_file; e_index = i; e_trace = [] }
+| EBasic (m, i) ->
+  { e_msg = (msg1 m); e_file = st.cs_file; e_index = i; e_trace = [] }
+| EOracle (mid, i) ->
+  { e_msg =
+    (mkMsg (String ((Ascii (true, true, true, true, false, false, true,
+      false)), (String ((Ascii (false, true, false, false, true, false, true,
+      false)), (String ((Ascii (true, false, false, false, false, false,
+      true, false)), (String ((Ascii (true, true, false, false, false, false,
+      true, false)), (String ((Ascii (false, false, true, true, false, false,
+      true, false)), (String ((Ascii (true, false, true, false, false, false,
+      true, false)), EmptyString)))))))))))) ((mid :: []) :: [])); e_file =
+    st.cs_file; e_index = i; e_trace = [] }
+
+(** val process_current : cstate -> cstate cres **)
+
+let process_current st =
+  match st.cs_cur with
+  | Some d ->
+    (match attach (attach_fuel st.cs_ctx) st.cs_forest st.cs_ctx d with
+     | COk a -> let (f, ctx) = a in COk (set_cur_dir (set_tree st f ctx) None)
+     | CErr e -> CErr e
+     | CPanic p -> CPanic p
+     | CFuel -> CFuel)
+  | None -> COk st
+
+(** val directive_tracer : cstate -> trace * cstate **)
+
+let directive_tracer st =
+  match st.cs_stack with
+  | [] -> ([], st)
+  | top :: _ ->
+    let key = file_name st top.si_file in
+    (match find (fun p -> beq (fst p) key) st.cs_tracers with
+     | Some p -> let (_, t) = p in (t, st)
+     | None ->
+       let t = live_trace st in
+       (t, { cs_forest = st.cs_forest; cs_ctx = st.cs_ctx; cs_cur =
+       st.cs_cur; cs_file = st.cs_file; cs_conf = st.cs_conf; cs_stack =
+       st.cs_stack; cs_tracers = (app st.cs_tracers ((key, t) :: []));
+       cs_files = st.cs_files; cs_log = st.cs_log }))
+
+(** val lex_coords : cstate -> lexeme -> coords **)
+
+let lex_coords st l =
+  { co_file = st.cs_file; co_begin = l.lb; co_end = l.le }
+
+(** val lex_value : cstate -> lexeme -> bytes option **)
+
+let lex_value st l =
+  lexeme_value (file_content st st.cs_file) l
+
+(** val jsight_kw : bytes **)
+
+let jsight_kw =
+  str (String ((Ascii (false, true, false, true, false, false, true, false)),
+    (String ((Ascii (true, true, false, false, true, false, true, false)),
+    (String ((Ascii (true, false, false, true, false, false, true, false)),
+    (String ((Ascii (true, true, true, false, false, false, true, false)),
+    (String ((Ascii (false, false, false, true, false, false, true, false)),
+    (String ((Ascii (false, false, true, false, true, false, true, false)),
+    EmptyString))))))))))))
+
+(** val include_kw : bytes **)
+
+let include_kw =
+  str (String ((Ascii (true, false, false, true, false, false, true, false)),
+    (String ((Ascii (false, true, true, true, false, false, true, false)),
+    (String ((Ascii (true, true, false, false, false, false, true, false)),
+    (String ((Ascii (false, false, true, true, false, false, true, false)),
+    (String ((Ascii (true, false, true, false, true, false, true, false)),
+    (String ((Ascii (false, false, true, false, false, false, true, false)),
+    (String ((Ascii (true, false, true, false, false, false, true, false)),
+    EmptyString))))))))))))))
+
+(** val process_keyword : cstate -> lexeme -> cstate cres **)
+
+let process_keyword st l =
+  match process_current st with
+  | COk st1 ->
+    (match lex_value st1 l with
+     | Some kw ->
+       if (&&) (negb (match st1.cs_stack with
+                      | [] -> true
+                      | _ :: _ -> false)) (beq kw jsight_kw)
+       then CErr
+              (core_error st1
+                (mkMsg (String ((Ascii (true, false, true, false, false,
+                  true, false, false)), (String ((Ascii (true, true, false,
+                  false, true, true, true, false)), (String ((Ascii (false,
+                  false, false, false, false, true, false, false)), (String
+                  ((Ascii (true, false, true, false, false, true, false,
+                  false)), (String ((Ascii (true, false, false, false, true,
+                  true, true, false)), EmptyString))))))))))
+                  ((str jerr_IncludeDirectiveErr) :: (kw :: []))) l.lb)
+       else (match new_directive_type kw with
+             | Some k ->
+               let (tr, st2) = directive_tracer st1 in
+               COk
+               (set_cur_dir st2 (Some { d_kind = k; d_keyword = kw; d_kw =
+                 (lex_coords st2 l); d_named = []; d_unnamed = []; d_annot =
+                 []; d_body = None; d_explicit = false; d_trace = tr;
+                 d_children = [] }))
+             | None ->
+               CErr
+                 (core_error st1
+                   (mkMsg (String ((Ascii (true, false, true, false, false,
+                     true, false, false)), (String ((Ascii (true, true,
+                     false, false, true, true, true, false)), (String ((Ascii
+                     (false, false, false, false, false, true, false,
+                     false)), (String ((Ascii (true, false, true, false,
+                     false, true, false, false)), (String ((Ascii (true,
+                     false, false, false, true, true, true, false)),
+                     EmptyString))))))))))
+                     ((str jerr_UnknownDirective) :: (kw :: []))) l.lb))
+     | None -> CPanic CPLexemeValue)
+  | x -> x
+
+(** val process_parameter : cstate -> lexeme -> cstate cres **)
+
+let process_parameter st l =
+  match st.cs_cur with
+  | Some d ->
+    (match lex_value st l with
+     | Some v ->
+       (match append_parameter d v with
+        | Inl d' -> COk (set_cur_dir st (Some d'))
+        | Inr m -> CErr (core_error st m l.lb))
+     | None -> CPanic CPLexemeValue)
+  | None -> CPanic CPNilCurrentDirective
+
+(** val process_annotation : cstate -> lexeme -> cstate cres **)
+
+let process_annotation st l =
+  match st.cs_cur with
+  | Some d ->
+    (match lex_value st l with
+     | Some v ->
+       COk
+         (set_cur_dir st (Some { d_kind = d.d_kind; d_keyword = d.d_keyword;
+           d_kw = d.d_kw; d_named = d.d_named; d_unnamed = d.d_unnamed;
+           d_annot = (annotation v); d_body = d.d_body; d_explicit =
+           d.d_explicit; d_trace = d.d_trace; d_children = d.d_children }))
+     | None -> CPanic CPLexemeValue)
+  | None -> CPanic CPNilCurrentDirective
+
+(** val process_body : cstate -> lexeme -> cstate cres **)
+
+let process_body st l =
+  match st.cs_cur with
+  | Some d ->
+    COk
+      (set_cur_dir st (Some { d_kind = d.d_kind; d_keyword = d.d_keyword;
+        d_kw = d.d_kw; d_named = d.d_named; d_unnamed = d.d_unnamed;
+        d_annot = d.d_annot; d_body = (Some (lex_coords st l)); d_explicit =
+        d.d_explicit; d_trace = d.d_trace; d_children = d.d_children }))
+  | None -> CPanic CPNilCurrentDirective
+
+(** val process_context_begin : cstate -> cstate cres **)
+
+let process_context_begin st =
+  match st.cs_cur with
+  | Some d ->
+    COk
+      (set_cur_dir st (Some { d_kind = d.d_kind; d_keyword = d.d_keyword;
+        d_kw = d.d_kw; d_named = d.d_named; d_unnamed = d.d_unnamed;
+        d_annot = d.d_annot; d_body = d.d_body; d_explicit = true; d_trace =
+        d.d_trace; d_children = d.d_children }))
+  | None -> CPanic CPNilCurrentDirective
+
+(** val process_context_end : cstate -> cstate cres **)
+
+let process_context_end st =
+  match process_current st with
+  | COk st1 ->
+    (match close_explicit (attach_fuel st1.cs_ctx) st1.cs_forest st1.cs_ctx with
+     | Some ctx -> COk (set_tree st1 st1.cs_forest ctx)
+     | None ->
+       CErr
+         (core_error st1 (msg1 jerr_ThereIsNoExplicitContextForClosure)
+           (Z.sub st1.cs_conf.c_cur (Zpos XH))))
+  | x -> x
+
+(** val core_next : cstate -> lexeme -> cstate cres **)
+
+let core_next st l =
+  match l.lk with
+  | LKeyword -> process_keyword st l
+  | LParameter -> process_parameter st l
+  | LAnnotation -> process_annotation st l
+  | LContextOpen -> process_context_begin st
+  | LContextClose -> process_context_end st
+  | _ -> process_body st l
+
+(** val lexeme_error : cstate -> lexeme -> cmsg -> cerr **)
+
+let lexeme_error st l m =
+  { e_msg = m; e_file = st.cs_file; e_index = l.lb; e_trace = [] }
+
+(** val fname : bytes **)
+
+let fname =
+  str (String ((Ascii (false, true, true, false, false, false, true, false)),
+    (String ((Ascii (true, false, false, true, false, true, true, false)),
+    (String ((Ascii (false, false, true, true, false, true, true, false)),
+    (String ((Ascii (true, false, true, false, false, true, true, false)),
+    (String ((Ascii (false, true, true, true, false, true, true, false)),
+    (String ((Ascii (true, false, false, false, false, true, true, false)),
+    (String ((Ascii (true, false, true, true, false, true, true, false)),
+    (String ((Ascii (true, false, true, false, false, true, true, false)),
+    EmptyString))))))))))))))))
+
+(** val process_include :
+    (string * stmt) list -> cond -> cond -> fsmap -> (bytes -> okind -> z ->
+    olen_res) -> state -> cstate -> lexeme -> cstate cres * cstate **)
+
+let process_include prog nl_cond ws_cond fs olen init_st st kw =
+  match scan_next prog nl_cond ws_cond olen st with
+  | ROk a ->
+    let (ol, cf) = a in
+    let st0 = set_conf st cf in
+    let required = ((CErr
+      (lexeme_error st0 kw
+        (mkMsg (String ((Ascii (true, false, true, false, false, true, false,
+          false)), (String ((Ascii (true, true, false, false, true, true,
+          true, false)), (String ((Ascii (false, false, false, false, false,
+          true, false, false)), (String ((Ascii (false, false, false, true,
+          false, true, false, false)), (String ((Ascii (true, false, true,
+          false, false, true, false, false)), (String ((Ascii (true, true,
+          false, false, true, true, true, false)), (String ((Ascii (true,
+          false, false, true, false, true, false, false)),
+          EmptyString))))))))))))))
+          ((str jerr_RequiredParameterNotSpecified) :: (fname :: []))))), st0)
+    in
+    (match ol with
+     | Some pl ->
+       (match pl.lk with
+        | LParameter ->
+          (match lex_value st0 pl with
+           | Some raw ->
+             let name = unquote raw in
+             let bad = fun st1 why -> ((CErr
+               (lexeme_error st1 kw
+                 (mkMsg (String ((Ascii (true, false, true, false, false,
+                   true, false, false)), (String ((Ascii (true, true, false,
+                   false, true, true, true, false)), (String ((Ascii (false,
+                   false, false, false, false, true, false, false)), (String
+                   ((Ascii (false, false, false, true, false, true, false,
+                   false)), (String ((Ascii (true, false, true, false, false,
+                   true, false, false)), (String ((Ascii (true, true, false,
+                   false, true, true, true, false)), (String ((Ascii (true,
+                   false, false, true, false, true, false, false)), (String
+                   ((Ascii (false, false, false, false, false, true, false,
+                   false)), (String ((Ascii (true, false, true, false, false,
+                   true, false, false)), (String ((Ascii (true, false, false,
+                   false, true, true, true, false)), (String ((Ascii (false,
+                   true, false, true, true, true, false, false)), (String
+                   ((Ascii (false, false, false, false, false, true, false,
+                   false)), (String ((Ascii (true, false, true, false, false,
+                   true, false, false)), (String ((Ascii (true, true, false,
+                   false, true, true, true, false)),
+                   EmptyString))))))))))))))))))))))))))))
+                   ((str jerr_IncorrectParameter) :: (fname :: (name :: (why :: []))))))),
+               st1)
+             in
+             (match validate_include include_checks name with
+              | Some o ->
+                (match o with
+                 | Some m -> bad st0 (str m)
+                 | None ->
+                   let p = join_dir (file_name st0 st0.cs_file) name in
+                   let st1 =
+                     add_log st0 (String ((Ascii (true, true, false, false,
+                       true, true, true, false)), (String ((Ascii (false,
+                       false, true, false, true, true, true, false)), (String
+                       ((Ascii (true, false, false, false, false, true, true,
+                       false)), (String ((Ascii (false, false, true, false,
+                       true, true, true, false)), EmptyString)))))))) p
+                   in
+                   (match fs_lookup fs p with
+                    | Some f ->
+                      (match f with
+                       | FFile content ->
+                         let st2 =
+                           add_log st1 (String ((Ascii (false, true, false,
+                             false, true, true, true, false)), (String
+                             ((Ascii (true, false, true, false, false, true,
+                             true, false)), (String ((Ascii (true, false,
+                             false, false, false, true, true, false)),
+                             (String ((Ascii (false, false, true, false,
+                             false, true, true, false)), EmptyString)))))))) p
+                         in
+                         let me = file_name st2 st2.cs_file in
+                         if existsb (fun it ->
+                              beq (file_name st2 it.si_file) me) st2.cs_stack
+                         then ((CErr
+                                (lexeme_error st2 kw
+                                  (msg1 jerr_RecursionIsProhibited))), st2)
+                         else let id = N.of_nat (length st2.cs_files) in
+                              let st' = { cs_forest = st2.cs_forest; cs_ctx =
+                                st2.cs_ctx; cs_cur = st2.cs_cur; cs_file =
+                                id; cs_conf = (init_conf init_st); cs_stack =
+                                ({ si_file = st2.cs_file; si_conf =
+                                st2.cs_conf; si_at =
+                                kw.lb } :: st2.cs_stack); cs_tracers =
+                                st2.cs_tracers; cs_files =
+                                (app st2.cs_files ((p, content) :: []));
+                                cs_log = st2.cs_log }
+                              in
+                              ((COk st'), st')
+                       | FDir ->
+                         bad st1
+                           (str (String ((Ascii (true, false, false, true,
+                             false, true, true, false)), (String ((Ascii
+                             (true, true, false, false, true, true, true,
+                             false)), (String ((Ascii (false, false, false,
+                             false, false, true, false, false)), (String
+                             ((Ascii (true, false, false, false, false, true,
+                             true, false)), (String ((Ascii (false, false,
+                             false, false, false, true, false, false)),
+                             (String ((Ascii (false, false, true, false,
+                             false, true, true, false)), (String ((Ascii
+                             (true, false, false, true, false, true, true,
+                             false)), (String ((Ascii (false, true, false,
+                             false, true, true, true, false)), (String
+                             ((Ascii (true, false, true, false, false, true,
+                             true, false)), (String ((Ascii (true, true,
+                             false, false, false, true, true, false)),
+                             (String ((Ascii (false, false, true, false,
+                             true, true, true, false)), (String ((Ascii
+                             (true, true, true, true, false, true, true,
+                             false)), (String ((Ascii (false, true, false,
+                             false, true, true, true, false)), (String
+                             ((Ascii (true, false, false, true, true, true,
+                             true, false)),
+                             EmptyString))))))))))))))))))))))))))))))
+                    | None ->
+                      bad st1
+                        (str (String ((Ascii (false, false, true, false,
+                          false, true, true, false)), (String ((Ascii (true,
+                          true, true, true, false, true, true, false)),
+                          (String ((Ascii (true, false, true, false, false,
+                          true, true, false)), (String ((Ascii (true, true,
+                          false, false, true, true, true, false)), (String
+                          ((Ascii (false, false, false, false, false, true,
+                          false, false)), (String ((Ascii (false, true, true,
+                          true, false, true, true, false)), (String ((Ascii
+                          (true, true, true, true, false, true, true,
+                          false)), (String ((Ascii (false, false, true,
+                          false, true, true, true, false)), (String ((Ascii
+                          (false, false, false, false, false, true, false,
+                          false)), (String ((Ascii (true, false, true, false,
+                          false, true, true, false)), (String ((Ascii (false,
+                          false, false, true, true, true, true, false)),
+                          (String ((Ascii (true, false, false, true, false,
+                          true, true, false)), (String ((Ascii (true, true,
+                          false, false, true, true, true, false)), (String
+                          ((Ascii (false, false, true, false, true, true,
+                          true, false)),
+                          EmptyString)))))))))))))))))))))))))))))))
+              | None -> ((CPanic CPEmptyIncludeName), st0))
+           | None -> ((CPanic CPLexemeValue), st0))
+        | _ -> required)
+     | None -> required)
+  | RErr e -> ((CErr (scan_error st e)), st)
+  | RPanic p -> ((CPanic (CPScanner p)), st)
+  | RFuel -> (CFuel, st)
+
+(** val is_include : cstate -> lexeme -> bool **)
+
+let is_include st l =
+  match l.lk with
+  | LKeyword ->
+    (match lex_value st l with
+     | Some v -> beq v include_kw
+     | None -> false)
+  | _ -> false
+
+(** val process_eof : cstate -> cstate cres **)
+
+let process_eof st =
+  match process_current st with
+  | COk st1 ->
+    if has_unclosed (attach_fuel st1.cs_ctx) st1.cs_forest st1.cs_ctx
+    then CErr
+           (core_error st1 (msg1 jerr_ContextNotClosed)
+             (Z.sub st1.cs_conf.c_cur (Zpos XH)))
+    else COk st1
+  | x -> x
+
+type sres =
+| SDone of cstate
+| SErr of cerr * cstate
+| SPanic of cpanic * cstate
+| SFuel
+
+(** val lift : cstate -> cstate cres -> (cstate -> sres) -> sres **)
+
+let lift st r k =
+  match r with
+  | COk st1 -> k st1
+  | CErr e -> SErr ((with_live_trace st e), st)
+  | CPanic p -> SPanic (p, st)
+  | CFuel -> SFuel
+
+(** val scan_project :
+    (string * stmt) list -> cond -> cond -> fsmap -> (bytes -> okind -> z ->
+    olen_res) -> state -> nat -> cstate -> sres **)
+
+let rec scan_project prog nl_cond ws_cond fs olen init_st fuel st =
+  match fuel with
+  | O -> SFuel
+  | S fuel' ->
+    (match scan_next prog nl_cond ws_cond olen st with
+     | ROk a ->
+       let (o, cf) = a in
+       (match o with
+        | Some l ->
+          let st0 = set_conf st cf in
+          if is_include st0 l
+          then let (c, st2) =
+                 process_include prog nl_cond ws_cond fs olen init_st st0 l
+               in
+               (match c with
+                | COk st1 ->
+                  scan_project prog nl_cond ws_cond fs olen init_st fuel' st1
+                | CErr e -> SErr ((with_live_trace st2 e), st2)
+                | CPanic p -> SPanic (p, st2)
+                | CFuel -> SFuel)
+          else lift st0 (core_next st0 l)
+                 (scan_project prog nl_cond ws_cond fs olen init_st fuel')
+        | None ->
+          let st0 = set_conf st cf in
+          lift st0 (process_eof st0) (fun st1 ->
+            match st1.cs_stack with
+            | [] -> SDone st1
+            | it :: rest ->
+              scan_project prog nl_cond ws_cond fs olen init_st fuel'
+                { cs_forest = st1.cs_forest; cs_ctx = st1.cs_ctx; cs_cur =
+                st1.cs_cur; cs_file = it.si_file; cs_conf = it.si_conf;
+                cs_stack = rest; cs_tracers = st1.cs_tracers; cs_files =
+                st1.cs_files; cs_log = st1.cs_log }))
+     | RErr e -> SErr ((with_live_trace st (scan_error st e)), st)
+     | RPanic p -> SPanic ((CPScanner p), st)
+     | RFuel -> SFuel)
+
+(** val initial_cstate : state -> bytes -> bytes -> cstate **)
+
+let initial_cstate init_st root_name root_content =
+  { cs_forest = []; cs_ctx = None; cs_cur = None; cs_file = N0; cs_conf =
+    (init_conf init_st); cs_stack = []; cs_tracers = []; cs_files =
+    ((root_name, root_content) :: []); cs_log = (((String ((Ascii (false,
+    true, false, false, true, true, true, false)), (String ((Ascii (true,
+    false, true, false, false, true, true, false)), (String ((Ascii (true,
+    false, false, false, false, true, true, false)), (String ((Ascii (false,
+    false, true, false, false, true, true, false)), EmptyString)))))))),
+    root_name) :: []) }
+
+type macros = (bytes * dir) list
+
+(** val macro_lookup : macros -> bytes -> dir option **)
+
+let rec macro_lookup ms name =
+  match ms with
+  | [] -> None
+  | p :: rest ->
+    let (n0, d) = p in if beq n0 name then Some d else macro_lookup rest name
+
+(** val required_name : dir -> cerr **)
+
+let required_name d =
+  dir_error d
+    (mkMsg (String ((Ascii (true, false, true, false, false, true, false,
+      false)), (String ((Ascii (true, true, false, false, true, true, true,
+      false)), (String ((Ascii (false, false, false, false, false, true,
+      false, false)), (String ((Ascii (false, false, false, true, false,
+      true, false, false)), (String ((Ascii (true, false, true, false, false,
+      true, false, false)), (String ((Ascii (true, true, false, false, true,
+      true, true, false)), (String ((Ascii (true, false, false, true, false,
+      true, false, false)), EmptyString))))))))))))))
+      ((str jerr_RequiredParameterNotSpecified) :: ((str (String ((Ascii
+                                                      (false, true, true,
+                                                      true, false, false,
+                                                      true, false)), (String
+                                                      ((Ascii (true, false,
+                                                      false, false, false,
+                                                      true, true, false)),
+                                                      (String ((Ascii (true,
+                                                      false, true, true,
+                                                      false, true, true,
+                                                      false)), (String
+                                                      ((Ascii (true, false,
+                                                      true, false, false,
+                                                      true, true, false)),
+                                                      EmptyString))))))))) :: [])))
+
+(** val add_macro : macros -> dir -> macros cres **)
+
+let add_macro ms d =
+  if negb (beq d.d_annot [])
+  then CErr (dir_error d (msg1 jerr_AnnotationIsForbiddenForTheDirective))
+  else let name = named d KName in
+       if beq name []
+       then CErr (required_name d)
+       else (match d.d_children with
+             | [] -> CErr (dir_error d (msg1 jerr_MacroIsEmpty))
+             | _ :: _ ->
+               (match macro_lookup ms name with
+                | Some _ ->
+                  CErr (dir_error d (mkMsg jerr_DuplicateNames (name :: [])))
+                | None -> COk (app ms ((name, d) :: []))))
+
+(** val collect_macro :
+    dir list -> dir list -> macros -> (dir list * macros) cres **)
+
+let rec collect_macro roots kept ms =
+  match roots with
+  | [] -> COk ((rev kept), ms)
+  | d :: rest ->
+    if N.eqb d.d_kind dir_Macro
+    then (match add_macro ms d with
+          | COk ms' -> collect_macro rest kept ms'
+          | CErr e -> CErr e
+          | CPanic p -> CPanic p
+          | CFuel -> CFuel)
+    else collect_macro rest (d :: kept) ms
+
+(** val find_paste : nat -> bytes -> dir -> cerr option **)
+
+let rec find_paste fuel name d =
+  match fuel with
+  | O -> None
+  | S fuel' ->
+    if N.eqb d.d_kind dir_Paste
+    then let n0 = named d KName in
+         if beq n0 []
+         then Some (required_name d)
+         else if beq n0 name
+              then Some (dir_error d (msg1 jerr_RecursionIsProhibited))
+              else None
+    else let rec first = function
+         | [] -> None
+         | c :: r ->
+           (match find_paste fuel' name c with
+            | Some e -> Some e
+            | None -> first r)
+         in first d.d_children
+
+(** val check_recursion : nat -> macros -> cerr list **)
+
+let check_recursion fuel ms =
+  flat_map (fun p ->
+    match find_paste fuel (fst p) (snd p) with
+    | Some e -> e :: []
+    | None -> []) ms
+
+type xstate = { x_forest : dir list; x_ctx : path option; x_enums : bytes list }
+
+(** val wrap_error : dir -> cerr -> cerr **)
+
+let wrap_error d e =
+  let m = e.e_msg in
+  let extra =
+    match e.e_trace with
+    | [] -> []
+    | p :: l -> (e.e_file, e.e_index) :: (p :: l)
+  in
+  dir_error d { m_fmt = m.m_fmt; m_args = m.m_args; m_suffix =
+    (app m.m_suffix extra) }
+
+(** val build_rule :
+    (coords -> (n * z) option) -> xstate -> dir -> xstate cres **)
+
+let build_rule enum_check xs d =
+  if negb (N.eqb d.d_kind dir_Enum)
+  then COk xs
+  else (match d.d_body with
+        | Some body ->
+          if Z.eqb body.co_end Z0
+          then COk xs
+          else (match enum_check body with
+                | Some p ->
+                  let (mid, idx) = p in
+                  CErr { e_msg =
+                  (mkMsg (String ((Ascii (true, true, true, true, false,
+                    false, true, false)), (String ((Ascii (false, true,
+                    false, false, true, false, true, false)), (String ((Ascii
+                    (true, false, false, false, false, false, true, false)),
+                    (String ((Ascii (true, true, false, false, false, false,
+                    true, false)), (String ((Ascii (false, false, true, true,
+                    false, false, true, false)), (String ((Ascii (true,
+                    false, true, false, false, false, true, false)),
+                    EmptyString)))))))))))) ((mid :: []) :: [])); e_file =
+                  body.co_file; e_index = (Z.add body.co_begin idx);
+                  e_trace = d.d_trace }
+                | None ->
+                  let name = named d KName in
+                  if existsb (beq name) xs.x_enums
+                  then CErr
+                         (dir_error d
+                           (mkMsg jerr_DuplicateNames (name :: [])))
+                  else COk { x_forest = xs.x_forest; x_ctx = xs.x_ctx;
+                         x_enums = (app xs.x_enums (name :: [])) })
+        | None -> COk xs)
+
+(** val build_rules :
+    (coords -> (n * z) option) -> xstate -> dir list -> xstate cres **)
+
+let rec build_rules enum_check xs = function
+| [] -> COk xs
+| d :: rest ->
+  (match build_rule enum_check xs d with
+   | COk xs' -> build_rules enum_check xs' rest
+   | x -> x)
+
+(** val expand_dir :
+    (coords -> (n * z) option) -> macros -> nat -> xstate -> dir -> xstate
+    cres **)
+
+let rec expand_dir enum_check ms fuel xs d =
+  match fuel with
+  | O -> CFuel
+  | S fuel' ->
+    let expand_list0 =
+      let rec go xs0 = function
+      | [] -> COk xs0
+      | c :: r ->
+        (match expand_dir enum_check ms fuel' xs0 c with
+         | COk xs' -> go xs' r
+         | x -> x)
+      in go
+    in
+    if N.eqb d.d_kind dir_Paste
+    then let inner =
+           if negb (beq d.d_annot [])
+           then CErr
+                  (dir_error d
+                    (msg1 jerr_AnnotationIsForbiddenForTheDirective))
+           else let name = named d KName in
+                if beq name []
+                then CErr (required_name d)
+                else (match macro_lookup ms name with
+                      | Some m ->
+                        (match build_rules enum_check xs m.d_children with
+                         | COk xs1 -> expand_list0 xs1 m.d_children
+                         | x -> x)
+                      | None -> CErr (dir_error d (msg1 jerr_MacroNotFound)))
+         in
+         (match inner with
+          | CErr e -> CErr (wrap_error d e)
+          | _ -> inner)
+    else let dd = with_children d [] in
+         (match attach (attach_fuel xs.x_ctx) xs.x_forest xs.x_ctx dd with
+          | COk a ->
+            let (f, ctx) = a in
+            let restore =
+              match ctx with
+              | Some p -> parent_path p
+              | None -> None
+            in
+            (match expand_list0 { x_forest = f; x_ctx = ctx; x_enums =
+                     xs.x_enums } d.d_children with
+             | COk xs2 ->
+               if d.d_explicit
+               then COk { x_forest = xs2.x_forest; x_ctx = restore; x_enums =
+                      xs2.x_enums }
+               else COk xs2
+             | x -> x)
+          | CErr e -> CErr e
+          | CPanic p -> CPanic p
+          | CFuel -> CFuel)
+
+(** val expand_list :
+    (coords -> (n * z) option) -> macros -> nat -> xstate -> dir list ->
+    xstate cres **)
+
+let rec expand_list enum_check ms fuel xs = function
+| [] -> COk xs
+| c :: r ->
+  (match expand_dir enum_check ms fuel xs c with
+   | COk xs' -> expand_list enum_check ms fuel xs' r
+   | x -> x)
+
+type expanded = { ex_roots : dir list; ex_macros : macros;
+                  ex_forest : dir list; ex_enums : bytes list }
+
+type xres =
+| XOk of expanded
+| XErr of cerr
+| XErrOneOf of cerr list
+| XPanic of cpanic
+| XFuel
+
+(** val compile_macros :
+    (coords -> (n * z) option) -> nat -> dir list -> xres **)
+
+let compile_macros enum_check fuel roots =
+  match collect_macro roots [] [] with
+  | COk a ->
+    let (roots', ms) = a in
+    (match check_recursion fuel ms with
+     | [] ->
+       (match expand_list enum_check ms fuel { x_forest = []; x_ctx = None;
+                x_enums = [] } roots' with
+        | COk xs ->
+          (match build_rules enum_check xs roots' with
+           | COk xs' ->
+             XOk { ex_roots = roots'; ex_macros = ms; ex_forest =
+               xs'.x_forest; ex_enums = xs'.x_enums }
+           | CErr e -> XErr e
+           | CPanic p -> XPanic p
+           | CFuel -> XFuel)
+        | CErr e -> XErr e
+        | CPanic p -> XPanic p
+        | CFuel -> XFuel)
+     | e :: l -> (match l with
+                  | [] -> XErr e
+                  | _ :: es -> XErrOneOf es))
+  | CErr e -> XErr e
+  | CPanic p -> XPanic p
+  | CFuel -> XFuel
+
+type otable = (((bytes * okind) * z) * olen_res) list
+
+type etable = (((bytes * z) * z) * (n * z)) list
+
+(** val olen_lookup : otable -> bytes -> okind -> z -> olen_res **)
+
+let rec olen_lookup t name k pos =
+  match t with
+  | [] -> OLenErr (missing_oracle_id, Z0)
+  | p :: rest ->
+    let (p0, r) = p in
+    let (p1, p') = p0 in
+    let (n0, k') = p1 in
+    if (&&) ((&&) (beq n0 name) (okind_eqb k k')) (Z.eqb pos p')
+    then r
+    else olen_lookup rest name k pos
+
+type rloc = { rl_name : bytes; rl_index : z; rl_line : z; rl_col : z }
+
+type rerr = { re_fmt : string; re_args : bytes list; re_suffix : rloc list;
+              re_loc : rloc; re_trace : rloc list }
+
+(** val render_loc : (bytes * bytes) list -> n -> z -> rloc **)
+
+let render_loc files f i =
+  match nth_error files (N.to_nat f) with
+  | Some p ->
+    let (n0, c) = p in
+    let (l, col) = line_and_column c i in
+    { rl_name = n0; rl_index = i; rl_line = l; rl_col = col }
+  | None -> { rl_name = []; rl_index = i; rl_line = Z0; rl_col = Z0 }
+
+(** val render_err : (bytes * bytes) list -> cerr -> rerr **)
+
+let render_err files e =
+  { re_fmt = e.e_msg.m_fmt; re_args = e.e_msg.m_args; re_suffix =
+    (map (fun p -> render_loc files (fst p) (snd p)) e.e_msg.m_suffix);
+    re_loc = (render_loc files e.e_file e.e_index); re_trace =
+    (map (fun p -> render_loc files (fst p) (snd p)) e.e_trace) }
+
+type rdir = { rd_kind : n; rd_keyword : bytes; rd_file : bytes; rd_begin : 
+              z; rd_end : z; rd_named : (string * bytes) list;
+              rd_unnamed : bytes list; rd_annot : bytes;
+              rd_body : ((bytes * z) * z) option; rd_explicit : bool;
+              rd_trace : rloc list; rd_children : rdir list }
+
+(** val fname_of : (bytes * bytes) list -> n -> bytes **)
+
+let fname_of files f =
+  match nth_error files (N.to_nat f) with
+  | Some p -> let (n0, _) = p in n0
+  | None -> []
+
+(** val render_dir : nat -> (bytes * bytes) list -> dir -> rdir **)
+
+let rec render_dir fuel files d =
+  { rd_kind = d.d_kind; rd_keyword = d.d_keyword; rd_file =
+    (fname_of files d.d_kw.co_file); rd_begin = d.d_kw.co_begin; rd_end =
+    d.d_kw.co_end; rd_named =
+    (map (fun p -> ((pkey_name (fst p)), (snd p))) d.d_named); rd_unnamed =
+    d.d_unnamed; rd_annot = d.d_annot; rd_body =
+    (match d.d_body with
+     | Some c -> Some (((fname_of files c.co_file), c.co_begin), c.co_end)
+     | None -> None); rd_explicit = d.d_explicit; rd_trace =
+    (map (fun p -> render_loc files (fst p) (snd p)) d.d_trace);
+    rd_children =
+    (match fuel with
+     | O -> []
+     | S f -> map (render_dir f files) d.d_children) }
+
+type tree_result =
+| TScanErr of rerr * (string * bytes) list
+| TScanPanic of cpanic * (string * bytes) list
+| TFuel
+| TScanned of rdir list * (string * bytes) list * tree_phase2
+and tree_phase2 =
+| T2Ok of rdir list * bytes list * rdir list * bytes list
+| T2Err of rerr
+| T2ErrOneOf of rerr list
+| T2Panic of cpanic
+| T2Fuel
+
+(** val render_depth : nat **)
+
+let render_depth =
+  S (S (S (S (S (S (S (S (S (S (S (S (S (S (S (S (S (S (S (S (S (S (S (S (S
+    (S (S (S (S (S (S (S (S (S (S (S (S (S (S (S (S (S (S (S (S (S (S (S (S
+    (S (S (S (S (S (S (S (S (S (S (S (S (S (S (S
+    O)))))))))))))))))))))))))))))))))))))))))))))))))))))))))))))))
+
+(** val tree_case :
+    fsmap -> bytes -> otable -> etable -> nat -> tree_result **)
+
+let tree_case fs root ot et fuel =
+  match fs_lookup fs root with
+  | Some f ->
+    (match f with
+     | FFile content ->
+       let st0 = initial_cstate initial_state root content in
+       (match scan_project prog_table is_newline_cond is_whitespace_cond fs
+                (olen_lookup ot) initial_state fuel st0 with
+        | SDone st ->
+          let files = st.cs_files in
+          let echeck = fun c ->
+            let name = fname_of files c.co_file in
+            (match find (fun r ->
+                     let (y, _) = r in
+                     let (y1, e) = y in
+                     let (n0, b) = y1 in
+                     (&&) ((&&) (beq n0 name) (Z.eqb b c.co_begin))
+                       (Z.eqb e c.co_end)) et with
+             | Some p -> let (_, v) = p in Some v
+             | None -> None)
+          in
+          TScanned ((map (render_dir render_depth files) st.cs_forest),
+          st.cs_log,
+          (match compile_macros echeck fuel st.cs_forest with
+           | XOk ex ->
+             T2Ok ((map (render_dir render_depth files) ex.ex_roots),
+               (map fst ex.ex_macros),
+               (map (render_dir render_depth files) ex.ex_forest),
+               ex.ex_enums)
+           | XErr e -> T2Err (render_err files e)
+           | XErrOneOf es -> T2ErrOneOf (map (render_err files) es)
+           | XPanic p -> T2Panic p
+           | XFuel -> T2Fuel))
+        | SErr (e, st) -> TScanErr ((render_err st.cs_files e), st.cs_log)
+        | SPanic (p, st) -> TScanPanic (p, st.cs_log)
+        | SFuel -> TFuel)
+     | FDir -> TFuel)
+  | None -> TFuel
